@@ -317,3 +317,1470 @@ Proof.
   intros a b H. unfold clamp_i16.
   destruct (Z.ltb_spec a (-32768)), (Z.ltb_spec b (-32768)); destruct (a >? 32767) eqn:Ea; destruct (b >? 32767) eqn:Eb; lia.
 Qed.
+
+(* ========================================================================================== *)
+(** * 2. update_composite_limits *)
+Open Scope N_scope.
+
+Definition comps_of (g : glyph) : option (list N) :=
+  match g with GComposite c _ => Some c | _ => None end.
+
+Definition small (l : limits) : Prop := l_pts l < 65536 /\ l_ctr l < 65536 /\ l_depth l < 65535.
+
+Definition lim_le (a b : limits) : Prop :=
+  l_pts a <= l_pts b /\ l_ctr a <= l_ctr b /\ l_depth a <= l_depth b.
+
+Lemma lim_le_refl : forall a, lim_le a a.
+Proof. intros a. unfold lim_le. lia. Qed.
+
+Lemma lim_step_le : forall a e, lim_le a (lim_step a e).
+Proof. intros a e. unfold lim_le, lim_step. cbn. lia. Qed.
+
+Lemma fold_lim_step_le : forall ls a, lim_le a (fold_left lim_step ls a).
+Proof.
+  induction ls as [|e ls IH]; intros a; cbn [fold_left]; [apply lim_le_refl|].
+  specialize (IH (lim_step a e)). pose proof (lim_step_le a e). unfold lim_le in *. lia.
+Qed.
+
+Lemma fold_step_ideal : forall ls a,
+  fold_left (fold_step Ideal) ls (Some a) = Some (fold_left lim_step ls a).
+Proof.
+  induction ls as [|e ls IH]; intros a; cbn [fold_left]; [reflexivity|].
+  cbn [fold_step add16]. rewrite IH. reflexivity.
+Qed.
+
+Lemma add16_small : forall m a b, a + b < 65536 -> add16 m a b = Some (a + b).
+Proof.
+  intros [] a b H; cbn [add16]; [reflexivity| |].
+  - now rewrite N.mod_small.
+  - destruct (N.ltb_spec (a + b) 65536); [reflexivity|lia].
+Qed.
+
+Lemma fold_step_small : forall m ls a, small (fold_left lim_step ls a) ->
+  fold_left (fold_step m) ls (Some a) = Some (fold_left lim_step ls a).
+Proof.
+  induction ls as [|e ls IH]; intros a Hs; cbn [fold_left] in *; [reflexivity|].
+  pose proof (fold_lim_step_le ls (lim_step a e)) as Hle.
+  destruct Hs as (S1 & S2 & S3). destruct Hle as (L1 & L2 & L3).
+  set (fin := fold_left lim_step ls (lim_step a e)) in *.
+  assert (P1 : l_pts a + l_pts e <= l_pts fin) by exact L1.
+  assert (P2 : l_ctr a + l_ctr e <= l_ctr fin) by exact L2.
+  assert (P3 : N.max (l_depth a) (l_depth e + 1) <= l_depth fin) by exact L3.
+  cbn [fold_step]. rewrite !add16_small by lia. subst fin.
+  rewrite IH; [reflexivity|]. unfold small. auto.
+Qed.
+
+Section Limits.
+Variable gl : list glyph.
+Notation G := (glyph_at gl).
+
+Definition simple_fits : Prop :=
+  forall g cs bb, G g = Some (GSimple cs bb) -> sumN cs < 65536 /\ lenN cs < 65536.
+
+(* the wrapping / panicking sums agree with the exact ones as long as nothing reaches 65536 *)
+Definition mode_ok (m : mode) : Prop := m = Ideal \/ forall g l, has_limits gl g l -> small l.
+
+Definition info0 : imap := fun g => option_map ginfo_of (G g).
+
+Definition Inv (info : imap) : Prop :=
+  forall g, match G g with
+            | None => info g = None
+            | Some gly => exists gi, info g = Some gi /\ gi_comps gi = comps_of gly
+                /\ (forall l, gi_limits gi = Some l -> has_limits gl g l)
+                /\ (comps_of gly = None -> gi_limits gi <> None)
+            end.
+
+Lemma Inv_info0 : simple_fits -> Inv info0.
+Proof.
+  intros Hfit g. unfold info0. destruct (G g) as [gly|] eqn:E; cbn [option_map]; [|reflexivity].
+  exists (ginfo_of gly). split; [reflexivity|]. destruct gly as [|cs bb|c bb]; cbn [ginfo_of gi_comps gi_limits comps_of].
+  - repeat split; try congruence. intros l H. inversion H. now apply HL_empty.
+  - destruct (Hfit _ _ _ E) as [F1 F2]. unfold u16. rewrite !N.mod_small by assumption.
+    repeat split; try congruence. intros l H. inversion H. now apply HL_simple with bb.
+  - repeat split; try congruence.
+Qed.
+
+Lemma child_limits_sound : forall info, Inv info -> forall comps ls,
+  child_limits info comps = RReady ls -> Forall2 (has_limits gl) comps ls.
+Proof.
+  intros info HI. induction comps as [|c t IH]; intros ls H; cbn [child_limits] in H.
+  - inversion H. constructor.
+  - destruct (info c) as [gi|] eqn:Ec; [|discriminate].
+    destruct (child_limits info t) as [| |ls'] eqn:Et; try discriminate.
+    destruct (gi_limits gi) as [l|] eqn:El; [|discriminate]. inversion H; subst.
+    constructor; [|now apply IH].
+    specialize (HI c). destruct (G c); [|congruence].
+    destruct HI as (gi' & E1 & _ & E3 & _). rewrite Ec in E1. inversion E1; subst. auto.
+Qed.
+
+Definition unresolved (info : imap) (g : N) : Prop := exists gi, info g = Some gi /\ gi_limits gi = None.
+
+Definition is_comp (g : N) : Prop := exists c bb, G g = Some (GComposite c bb).
+
+Definition OmaxInv (info : imap) (omax : limits) (done : list limits) : Prop :=
+  omax = fold_left lim_max done lim_zero
+  /\ (forall l, In l done -> exists g, is_comp g /\ has_limits gl g l)
+  /\ (forall g gi l, is_comp g -> info g = Some gi -> gi_limits gi = Some l -> In l done).
+
+Lemma upd_same : forall info k v, upd info k v k = Some v.
+Proof. intros. unfold upd. now rewrite N.eqb_refl. Qed.
+Lemma upd_other : forall info k v g, g <> k -> upd info k v g = info g.
+Proof. intros. unfold upd. destruct (N.eqb_spec g k); [congruence|reflexivity]. Qed.
+
+Lemma pass_sound : forall m, mode_ok m -> forall pending info omax done info' kept omax',
+  Inv info -> OmaxInv info omax done ->
+  pass m info pending omax = LOk (info', kept, omax') ->
+  Inv info' /\ (exists done', OmaxInv info' omax' done')
+  /\ (forall g, In g kept -> In g pending)
+  /\ (forall g, unresolved info' g -> unresolved info g /\ (In g pending -> In g kept))
+  /\ (length kept <= length pending)%nat.
+Proof.
+  intros m Hm. induction pending as [|gid rest IH]; intros info omax done info' kept omax' HI HO H;
+    cbn [pass] in H.
+  - inversion H; subst. repeat split; eauto; try tauto.
+  - destruct (info gid) as [gi|] eqn:Egid; [|discriminate].
+    destruct (gi_comps gi) as [comps|] eqn:Ecomps; [|discriminate].
+    destruct (child_limits info comps) as [| |ls] eqn:Ech; [discriminate| |].
+    + (* not yet: kept *)
+      destruct (pass m info rest omax) as [[[i k] om]| | | |] eqn:Ep; try discriminate.
+      inversion H; subst.
+      destruct (IH _ _ _ _ _ _ HI HO Ep) as (I1 & I2 & I3 & I4 & I5).
+      split; [exact I1|]. split; [exact I2|]. split; [|split].
+      * intros g [<-|Hg]; [now left|right; auto].
+      * intros g Hu. split; [apply (I4 g Hu)|].
+        intros [<-|Hg]; [now left|]. right. apply (proj2 (I4 g Hu)). assumption.
+      * cbn [length]. lia.
+    + (* resolved now *)
+      pose proof (child_limits_sound info HI comps ls Ech) as HF2.
+      pose proof (HI gid) as Hg. destruct (G gid) as [gly|] eqn:EG; [|congruence].
+      destruct Hg as (gi0 & E0 & Ec0 & El0 & En0). rewrite Egid in E0. inversion E0; subst gi0.
+      rewrite Ecomps in Ec0. destruct gly as [|cs bb|c bb]; cbn [comps_of] in Ec0; try discriminate.
+      inversion Ec0; subst c.
+      assert (Hhl : has_limits gl gid (sum_limits ls)) by (eapply HL_comp; eauto).
+      assert (Hfold : fold_left (fold_step m) ls (Some lim_zero) = Some (sum_limits ls)).
+      { destruct Hm as [->|Hm]; [apply fold_step_ideal|]. apply fold_step_small. apply (Hm _ _ Hhl). }
+      rewrite Hfold in H.
+      set (info1 := upd info gid (mkGI (Some (sum_limits ls)) (Some comps))) in *.
+      assert (HI1 : Inv info1).
+      { intros g. destruct (N.eq_dec g gid) as [->|Hne].
+        - rewrite EG. unfold info1. rewrite upd_same. eexists. split; [reflexivity|].
+          cbn [gi_comps gi_limits comps_of]. repeat split; try congruence.
+        - unfold info1. rewrite upd_other by assumption. apply HI. }
+      destruct HO as (O1 & O2 & O3).
+      assert (HO1 : OmaxInv info1 (lim_max omax (sum_limits ls)) (done ++ [sum_limits ls])).
+      { repeat split.
+        - rewrite fold_left_app. cbn [fold_left]. now rewrite <- O1.
+        - intros l Hl. apply in_app_or in Hl. destruct Hl as [Hl|[<-|[]]]; [auto|].
+          exists gid. split; [exists comps, bb; exact EG|exact Hhl].
+        - intros g gi' l Hc Hi Hl. destruct (N.eq_dec g gid) as [->|Hne].
+          + unfold info1 in Hi. rewrite upd_same in Hi. inversion Hi; subst. cbn in Hl. inversion Hl; subst.
+            apply in_or_app. right. now left.
+          + unfold info1 in Hi. rewrite upd_other in Hi by assumption. apply in_or_app. left. eauto. }
+      destruct (IH _ _ _ _ _ _ HI1 HO1 H) as (I1 & I2 & I3 & I4 & I5).
+      split; [exact I1|]. split; [exact I2|]. split; [|split].
+      * intros g Hg. right. auto.
+      * intros g Hu. destruct (I4 g Hu) as ((gi' & Ei & El) & Hk).
+        destruct (N.eq_dec g gid) as [->|Hne].
+        -- exfalso. unfold info1 in Ei. rewrite upd_same in Ei. inversion Ei; subst. discriminate.
+        -- unfold info1 in Ei. rewrite upd_other in Ei by assumption. split; [exists gi'; auto|].
+           intros [E|Hg]; [congruence|auto].
+      * cbn [length]. lia.
+Qed.
+
+(* every component of a composite is a glyph of the font *)
+Definition refs_ok : Prop :=
+  forall g c bb, G g = Some (GComposite c bb) -> forall x, In x c -> G x <> None.
+
+(* the component graph is acyclic: some rank strictly decreases along every reference *)
+Definition acyclic (rank : N -> nat) : Prop :=
+  forall g c bb, G g = Some (GComposite c bb) -> forall x, In x c -> (rank x < rank g)%nat.
+
+Definition resolved (info : imap) (x : N) : Prop := exists gi l, info x = Some gi /\ gi_limits gi = Some l.
+
+Lemma child_ready : forall info comps, (forall x, In x comps -> resolved info x) ->
+  exists ls, child_limits info comps = RReady ls.
+Proof.
+  intros info. induction comps as [|c t IH]; intros H; cbn [child_limits]; [eauto|].
+  destruct (H c) as (gi & l & E1 & E2); [now left|]. rewrite E1.
+  destruct IH as [ls Els]; [intros x Hx; apply H; now right|]. rewrite Els, E2. eauto.
+Qed.
+
+Lemma child_not_missing : forall info comps, (forall x, In x comps -> info x <> None) ->
+  child_limits info comps <> RMissing.
+Proof.
+  intros info. induction comps as [|c t IH]; intros H; cbn [child_limits]; [discriminate|].
+  destruct (info c) as [gi|] eqn:E; [|exfalso; apply (H c); [now left|assumption]].
+  assert (IH' := IH (fun x Hx => H x (or_intror Hx))).
+  destruct (child_limits info t); [congruence|discriminate|]. destruct (gi_limits gi); discriminate.
+Qed.
+
+Lemma Inv_exists : forall info, Inv info -> forall x, G x <> None -> info x <> None.
+Proof.
+  intros info HI x Hx. specialize (HI x). destruct (G x); [|congruence].
+  destruct HI as (gi & E & _). congruence.
+Qed.
+
+(* with well-formed references and sums that fit, a pass cannot panic *)
+Lemma pass_total : forall m, mode_ok m -> refs_ok -> forall pending info omax done,
+  Inv info -> OmaxInv info omax done -> (forall g, In g pending -> is_comp g) ->
+  exists info' kept omax', pass m info pending omax = LOk (info', kept, omax').
+Proof.
+  intros m Hm Hrefs. induction pending as [|gid rest IH]; intros info omax done HI HO Hp; cbn [pass].
+  - eauto.
+  - destruct (Hp gid (or_introl eq_refl)) as (c & bb & EG).
+    pose proof (HI gid) as Hg. rewrite EG in Hg. destruct Hg as (gi & Ei & Ec & El & _).
+    rewrite Ei, Ec. cbn [comps_of].
+    assert (Hnm : child_limits info c <> RMissing).
+    { apply child_not_missing. intros x Hx. apply Inv_exists; [assumption|]. eapply Hrefs; eauto. }
+    destruct (child_limits info c) as [| |ls] eqn:Ech; [congruence| |].
+    + destruct (IH info omax done HI HO) as (i & k & om & E); [intros g Hg; apply Hp; now right|].
+      rewrite E. eauto.
+    + (* reuse pass_sound's reasoning through the one-step unfolding *)
+      pose proof (child_limits_sound info HI c ls Ech) as HF2.
+      assert (Hhl : has_limits gl gid (sum_limits ls)) by (eapply HL_comp; eauto).
+      assert (Hfold : fold_left (fold_step m) ls (Some lim_zero) = Some (sum_limits ls)).
+      { destruct Hm as [->|Hm]; [apply fold_step_ideal|]. apply fold_step_small. apply (Hm _ _ Hhl). }
+      rewrite Hfold.
+      set (info1 := upd info gid (mkGI (Some (sum_limits ls)) (Some c))).
+      assert (HI1 : Inv info1).
+      { intros g. destruct (N.eq_dec g gid) as [->|Hne].
+        - rewrite EG. unfold info1. rewrite upd_same. eexists. split; [reflexivity|].
+          cbn [gi_comps gi_limits comps_of]. repeat split; try congruence.
+        - unfold info1. rewrite upd_other by assumption. apply HI. }
+      destruct HO as (O1 & O2 & O3).
+      assert (HO1 : OmaxInv info1 (lim_max omax (sum_limits ls)) (done ++ [sum_limits ls])).
+      { repeat split.
+        - rewrite fold_left_app. cbn [fold_left]. now rewrite <- O1.
+        - intros l Hl. apply in_app_or in Hl. destruct Hl as [Hl|[<-|[]]]; [auto|].
+          exists gid. split; [exists c, bb; exact EG|exact Hhl].
+        - intros g gi' l Hc Hi Hl. destruct (N.eq_dec g gid) as [->|Hne].
+          + unfold info1 in Hi. rewrite upd_same in Hi. inversion Hi; subst. cbn in Hl. inversion Hl; subst.
+            apply in_or_app. right. now left.
+          + unfold info1 in Hi. rewrite upd_other in Hi by assumption. apply in_or_app. left. eauto. }
+      apply (IH info1 _ _ HI1 HO1). intros g Hg. apply Hp. now right.
+Qed.
+
+(* a glyph whose components are all resolved when the pass starts is dropped by it *)
+Lemma pass_progress : forall m pending info omax info' kept omax',
+  pass m info pending omax = LOk (info', kept, omax') ->
+  (exists g gi comps ls, In g pending /\ info g = Some gi /\ gi_comps gi = Some comps
+                         /\ child_limits info comps = RReady ls) ->
+  (length kept < length pending)%nat.
+Proof.
+  intros m. induction pending as [|gid rest IH]; intros info omax info' kept omax' H Hex; cbn [pass] in H.
+  - destruct Hex as (g & _ & _ & _ & [] & _).
+  - destruct (info gid) as [gi|] eqn:Egid; [|discriminate].
+    destruct (gi_comps gi) as [comps|] eqn:Ecomps; [|discriminate].
+    destruct (child_limits info comps) as [| |ls] eqn:Ech; [discriminate| |].
+    + destruct (pass m info rest omax) as [[[i k] om]| | | |] eqn:Ep; try discriminate.
+      inversion H; subst. cbn [length]. apply -> Nat.succ_lt_mono.
+      eapply IH; [exact Ep|].
+      destruct Hex as (g & gi' & comps' & ls' & [<-|Hin] & E1 & E2 & E3).
+      * rewrite Egid in E1. inversion E1; subst. rewrite Ecomps in E2. inversion E2; subst. congruence.
+      * exists g, gi', comps', ls'. auto.
+    + destruct (fold_left (fold_step m) ls (Some lim_zero)) as [limit|]; [|discriminate].
+      (* the head is dropped: whatever the rest does, the result is shorter *)
+      clear IH Hex.
+      assert (Hlen : forall pend inf om i k o, pass m inf pend om = LOk (i, k, o) -> (length k <= length pend)%nat).
+      { induction pend as [|x xs IHx]; intros inf om i k o Hp; cbn [pass] in Hp.
+        - inversion Hp. cbn. lia.
+        - destruct (inf x) as [gx|]; [|discriminate]. destruct (gi_comps gx) as [cx|]; [|discriminate].
+          destruct (child_limits inf cx) as [| |lx]; [discriminate| |].
+          + destruct (pass m inf xs om) as [[[i2 k2] o2]| | | |] eqn:E2; try discriminate.
+            inversion Hp; subst. cbn [length]. specialize (IHx _ _ _ _ _ E2). lia.
+          + destruct (fold_left (fold_step m) lx (Some lim_zero)); [|discriminate].
+            specialize (IHx _ _ _ _ _ Hp). cbn [length]. lia. }
+      specialize (Hlen _ _ _ _ _ _ H). cbn [length]. lia.
+Qed.
+
+Lemma min_rank_elem : forall (rank : N -> nat) (l : list N), l <> [] ->
+  exists g, In g l /\ forall x, In x l -> (rank g <= rank x)%nat.
+Proof.
+  intros rank. induction l as [|a l IH]; intros Hne; [congruence|].
+  destruct l as [|b l'].
+  - exists a. split; [now left|]. intros x [<-|[]]. lia.
+  - destruct IH as (g & Hin & Hmin); [discriminate|].
+    destruct (Nat.le_gt_cases (rank a) (rank g)) as [Hle|Hgt].
+    + exists a. split; [now left|]. intros x [<-|Hx]; [lia|]. specialize (Hmin x Hx). lia.
+    + exists g. split; [now right|]. intros x [<-|Hx]; [lia|auto].
+Qed.
+
+Definition lim_fields_attained (L : limits) (done : list limits) : Prop :=
+  (l_pts L = 0 \/ exists l, In l done /\ l_pts l = l_pts L)
+  /\ (l_ctr L = 0 \/ exists l, In l done /\ l_ctr l = l_ctr L)
+  /\ (l_depth L = 0 \/ exists l, In l done /\ l_depth l = l_depth L).
+
+Lemma fold_lim_max_spec : forall done a,
+  let L := fold_left lim_max done a in
+  lim_le a L /\ (forall l, In l done -> lim_le l L)
+  /\ (l_pts L = l_pts a \/ exists l, In l done /\ l_pts l = l_pts L)
+  /\ (l_ctr L = l_ctr a \/ exists l, In l done /\ l_ctr l = l_ctr L)
+  /\ (l_depth L = l_depth a \/ exists l, In l done /\ l_depth l = l_depth L).
+Proof.
+  induction done as [|d done IH]; intros a; cbn [fold_left]; cbv zeta.
+  - split; [apply lim_le_refl|]. split; [intros l []|]. auto.
+  - specialize (IH (lim_max a d)). cbv zeta in IH. destruct IH as (H1 & H2 & H3 & H4 & H5).
+    set (L := fold_left lim_max done (lim_max a d)) in *.
+    unfold lim_le, lim_max in *. cbn [l_pts l_ctr l_depth] in *.
+    split; [lia|]. split.
+    { intros l [<-|Hl]; [lia|]. apply H2. exact Hl. }
+    split; [|split].
+    + destruct H3 as [H3|(l & Hl & E)]; [|right; exists l; split; [now right|exact E]].
+      destruct (N.max_spec (l_pts a) (l_pts d)) as [[_ E]|[_ E]]; rewrite E in H3; [|now left].
+      right. exists d. split; [now left|congruence].
+    + destruct H4 as [H4|(l & Hl & E)]; [|right; exists l; split; [now right|exact E]].
+      destruct (N.max_spec (l_ctr a) (l_ctr d)) as [[_ E]|[_ E]]; rewrite E in H4; [|now left].
+      right. exists d. split; [now left|congruence].
+    + destruct H5 as [H5|(l & Hl & E)]; [|right; exists l; split; [now right|exact E]].
+      destruct (N.max_spec (l_depth a) (l_depth d)) as [[_ E]|[_ E]]; rewrite E in H5; [|now left].
+      right. exists d. split; [now left|congruence].
+Qed.
+
+(* what a successful run means *)
+Definition limits_spec (L : limits) : Prop :=
+  exists done,
+    (forall l, In l done -> exists g, is_comp g /\ has_limits gl g l)
+    /\ (forall g, is_comp g -> exists l, has_limits gl g l /\ In l done)
+    /\ (forall l, In l done -> lim_le l L)
+    /\ lim_fields_attained L done.
+
+Lemma loop_sound : forall m, mode_ok m -> forall fuel info pending omax done L,
+  Inv info -> OmaxInv info omax done -> (forall g, unresolved info g -> In g pending) ->
+  loop m fuel info pending omax = LOk L -> limits_spec L.
+Proof.
+  intros m Hm. induction fuel as [|f IH]; intros info pending omax done L HI HO HU H.
+  - destruct pending as [|p ps]; cbn [loop] in H; [|discriminate].
+    inversion H; subst. clear H. destruct HO as (O1 & O2 & O3). exists done.
+    split; [exact O2|]. split.
+    { intros g Hc. pose proof Hc as (c & bb & EG). pose proof (HI g) as Hg. rewrite EG in Hg.
+      destruct Hg as (gi & Ei & _ & El & _).
+      destruct (gi_limits gi) as [l|] eqn:E.
+      - exists l. split; [auto|]. eapply O3; eauto.
+      - exfalso. apply (HU g). exists gi. auto. }
+    destruct (fold_lim_max_spec done lim_zero) as (_ & F2 & F3 & F4 & F5). cbv zeta in *.
+    rewrite <- O1 in *. split; [exact F2|]. unfold lim_fields_attained. cbn [lim_zero l_pts l_ctr l_depth] in *. auto.
+  - destruct pending as [|p ps]; cbn [loop] in H.
+    + (* same as above *)
+      inversion H; subst. clear H. destruct HO as (O1 & O2 & O3). exists done.
+      split; [exact O2|]. split.
+      { intros g Hc. pose proof Hc as (c & bb & EG). pose proof (HI g) as Hg. rewrite EG in Hg.
+        destruct Hg as (gi & Ei & _ & El & _).
+        destruct (gi_limits gi) as [l|] eqn:E.
+        - exists l. split; [auto|]. eapply O3; eauto.
+        - exfalso. apply (HU g). exists gi. auto. }
+      destruct (fold_lim_max_spec done lim_zero) as (_ & F2 & F3 & F4 & F5). cbv zeta in *.
+      rewrite <- O1 in *. split; [exact F2|]. unfold lim_fields_attained. cbn [lim_zero l_pts l_ctr l_depth] in *. auto.
+    + destruct (pass m info (p :: ps) omax) as [[[i k] om]| | | |] eqn:Ep; try discriminate.
+      destruct (length k <? length (p :: ps))%nat; [|discriminate].
+      destruct (pass_sound m Hm _ _ _ _ _ _ _ HI HO Ep) as (I1 & (done' & I2) & I3 & I4 & I5).
+      eapply IH; [exact I1|exact I2| |exact H].
+      intros g Hu. destruct (I4 g Hu) as (Hu0 & Hk). apply Hk. apply HU. exact Hu0.
+Qed.
+
+Lemma loop_complete : forall m, mode_ok m -> refs_ok -> forall rank, acyclic rank ->
+  forall fuel info pending omax done,
+  (length pending <= fuel)%nat ->
+  Inv info -> OmaxInv info omax done ->
+  (forall g, In g pending -> is_comp g) -> (forall g, unresolved info g -> In g pending) ->
+  exists L, loop m fuel info pending omax = LOk L.
+Proof.
+  intros m Hm Hrefs rank Hacyc. induction fuel as [|f IH]; intros info pending omax done Hlen HI HO Hp HU.
+  - destruct pending; [cbn; eauto|cbn in Hlen; lia].
+  - destruct pending as [|p ps] eqn:Epend; [cbn; eauto|]. rewrite <- Epend in *.
+    assert (Hne : pending <> []) by (rewrite Epend; discriminate).
+    cbn [loop]. rewrite Epend. cbn [loop]. rewrite <- Epend.
+    destruct (pass_total m Hm Hrefs pending info omax done HI HO Hp) as (i & k & om & Ep).
+    rewrite Ep.
+    destruct (pass_sound m Hm _ _ _ _ _ _ _ HI HO Ep) as (I1 & (done' & I2) & I3 & I4 & I5).
+    (* the pending glyph of least rank has every component resolved *)
+    destruct (min_rank_elem rank pending Hne) as (g & Hgin & Hmin).
+    destruct (Hp g Hgin) as (c & bb & EG).
+    pose proof (HI g) as Hg. rewrite EG in Hg. destruct Hg as (gi & Ei & Ec & _ & _). cbn [comps_of] in Ec.
+    assert (Hres : forall x, In x c -> resolved info x).
+    { intros x Hx. pose proof (Hrefs _ _ _ EG x Hx) as Hex. pose proof (HI x) as Hxi.
+      destruct (G x) as [gx|] eqn:EGx; [|congruence]. destruct Hxi as (gix & Eix & _ & _ & Hn).
+      destruct (gi_limits gix) as [l|] eqn:El; [exists gix, l; auto|].
+      exfalso. assert (Hxin : In x pending) by (apply HU; exists gix; auto).
+      specialize (Hmin x Hxin). specialize (Hacyc _ _ _ EG x Hx). lia. }
+    destruct (child_ready info c Hres) as (ls & Els).
+    assert (Hlt : (length k < length pending)%nat).
+    { eapply pass_progress; [exact Ep|]. exists g, gi, c, ls. auto. }
+    destruct (Nat.ltb_spec (length k) (length pending)); [|lia].
+    eapply IH; [lia|exact I1|exact I2| |].
+    + intros x Hx. apply Hp. auto.
+    + intros x Hu. destruct (I4 x Hu) as (Hu0 & Hk). apply Hk. apply HU. exact Hu0.
+Qed.
+
+Lemma OmaxInv_init : forall info, Inv info -> (forall g, is_comp g -> unresolved info g) ->
+  OmaxInv info lim_zero [].
+Proof.
+  intros info HI Hun. repeat split.
+  - intros l [].
+  - intros g gi l Hc Hi Hl. destruct (Hun g Hc) as (gi' & E1 & E2). congruence.
+Qed.
+
+Lemma info0_unresolved : forall g, unresolved info0 g <-> is_comp g.
+Proof.
+  intros g. unfold unresolved, is_comp, info0. split.
+  - intros (gi & E1 & E2). destruct (G g) as [[|cs bb|c bb]|]; cbn in E1; inversion E1; subst; cbn in E2; try discriminate. eauto.
+  - intros (c & bb & ->). cbn. eexists. split; reflexivity.
+Qed.
+
+(* The fixed point computes the recursive definition, whatever order the hash map yields the
+   composites in; with the u16 sums of the code as long as no total reaches 65536. *)
+Lemma composite_limits_main : forall m rank pending,
+  simple_fits -> refs_ok -> acyclic rank -> mode_ok m ->
+  (forall g, In g pending <-> is_comp g) ->
+  exists L, update_composite_limits m info0 pending = LOk L /\ limits_spec L.
+Proof.
+  intros m rank pending Hfit Hrefs Hacyc Hm Hpend.
+  pose proof (Inv_info0 Hfit) as HI.
+  assert (HO : OmaxInv info0 lim_zero []) by (apply OmaxInv_init; [exact HI|intros g; apply info0_unresolved]).
+  assert (HU : forall g, unresolved info0 g -> In g pending) by (intros g Hu; apply Hpend, info0_unresolved, Hu).
+  assert (Hp : forall g, In g pending -> is_comp g) by (intros g; apply Hpend).
+  destruct (loop_complete m Hm Hrefs rank Hacyc (length pending) info0 pending lim_zero [] (le_n _) HI HO Hp HU) as (L & HL).
+  exists L. split; [exact HL|]. eapply loop_sound; eauto.
+Qed.
+
+Lemma composite_limits_sound : forall m pending L,
+  simple_fits -> mode_ok m -> (forall g, is_comp g -> In g pending) ->
+  update_composite_limits m info0 pending = LOk L -> limits_spec L.
+Proof.
+  intros m pending L Hfit Hm Hpend H.
+  pose proof (Inv_info0 Hfit) as HI.
+  assert (HO : OmaxInv info0 lim_zero []) by (apply OmaxInv_init; [exact HI|intros g; apply info0_unresolved]).
+  eapply loop_sound; eauto. intros g Hu. apply Hpend, info0_unresolved, Hu.
+Qed.
+
+End Limits.
+
+(** ** the recursive definition is a function on acyclic glyph tables *)
+Lemma Forall2_unique : forall (R : N -> limits -> Prop) comps ls ls',
+  Forall2 R comps ls -> Forall2 R comps ls' ->
+  (forall c l l', In c comps -> R c l -> R c l' -> l = l') -> ls = ls'.
+Proof.
+  intros R comps ls ls' H. revert ls'. induction H as [|c l comps ls Hc Hrest IH]; intros ls' H' Hu.
+  - inversion H'. reflexivity.
+  - inversion H' as [|c' l' comps' ls'' Hc' Hrest']; subst. f_equal.
+    + eapply Hu; eauto. now left.
+    + apply IH; [assumption|]. intros c0 a b Hin. apply Hu. now right.
+Qed.
+
+Lemma has_limits_unique : forall gl rank, acyclic gl rank ->
+  forall g l l', has_limits gl g l -> has_limits gl g l' -> l = l'.
+Proof.
+  intros gl rank Hacyc.
+  assert (H : forall n g, (rank g < n)%nat -> forall l l', has_limits gl g l -> has_limits gl g l' -> l = l').
+  { induction n as [|n IH]; intros g Hr l l' H1 H2; [lia|].
+    inversion H1 as [g1 E1|g1 cs1 bb1 E1|g1 c1 bb1 ls1 E1 F1]; subst;
+    inversion H2 as [g2 E2|g2 cs2 bb2 E2|g2 c2 bb2 ls2 E2 F2]; subst; try congruence.
+    all: rewrite E1 in E2; inversion E2; subst; try reflexivity.
+    f_equal.
+    eapply Forall2_unique; eauto. intros c a b Hin Ha Hb.
+    eapply (IH c); eauto. specialize (Hacyc _ _ _ E1 c Hin). lia. }
+  intros g. apply (H (S (rank g))). lia.
+Qed.
+
+(** ** MaxBuilder::update folded over the glyph order *)
+Lemma mx_update_info : forall s id g, mx_info (mx_update s id g) = upd (mx_info s) id (ginfo_of g).
+Proof. intros s id []; reflexivity. Qed.
+
+Lemma mx_fold_info : forall gl s id g,
+  mx_info (mx_fold s id gl) g =
+  match (if id <=? g then nth_error gl (N.to_nat (g - id)) else None) with
+  | Some gly => Some (ginfo_of gly)
+  | None => mx_info s g
+  end.
+Proof.
+  induction gl as [|x t IH]; intros s id g; cbn [mx_fold].
+  - destruct (id <=? g); [destruct (N.to_nat (g - id))|]; reflexivity.
+  - rewrite IH. rewrite mx_update_info.
+    destruct (N.leb_spec (N.succ id) g) as [H|H].
+    + destruct (N.leb_spec id g) as [H'|H']; [|lia].
+      replace (N.to_nat (g - id)) with (S (N.to_nat (g - N.succ id))) by lia. cbn [nth_error].
+      destruct (nth_error t (N.to_nat (g - N.succ id))); [reflexivity|].
+      apply upd_other. lia.
+    + destruct (N.leb_spec id g) as [H'|H'].
+      * assert (g = id) by lia. subst g. rewrite N.sub_diag. cbn [N.to_nat nth_error]. apply upd_same.
+      * apply upd_other. lia.
+Qed.
+
+Lemma mx_fold_info0 : forall gl g, mx_info (mx_fold mx_init 0 gl) g = info0 gl g.
+Proof.
+  intros gl g. rewrite mx_fold_info. cbn [N.leb]. rewrite N.sub_0_r. unfold info0, glyph_at.
+  destruct (N.leb_spec 0 g) as [_|H]; [|lia].
+  destruct (nth_error gl (N.to_nat g)); reflexivity.
+Qed.
+
+(* the loop only ever looks the map up, so maps that agree pointwise give the same result *)
+Lemma child_limits_ext : forall i1 i2, (forall g, i1 g = i2 g) -> forall c, child_limits i1 c = child_limits i2 c.
+Proof. intros i1 i2 H. induction c as [|x t IH]; cbn [child_limits]; [reflexivity|]. now rewrite H, IH. Qed.
+
+Definition out_rel {A} (R : A -> A -> Prop) (a b : outcome A) : Prop :=
+  match a, b with
+  | LOk x, LOk y => R x y
+  | LOverflow, LOverflow | LStuck, LStuck | LMissing, LMissing | LFuel, LFuel => True
+  | _, _ => False
+  end.
+
+Lemma pass_ext : forall m pending i1 i2 omax, (forall g, i1 g = i2 g) ->
+  out_rel (fun a b => (forall g, fst (fst a) g = fst (fst b) g) /\ snd (fst a) = snd (fst b) /\ snd a = snd b)
+          (pass m i1 pending omax) (pass m i2 pending omax).
+Proof.
+  intros m. induction pending as [|gid rest IH]; intros i1 i2 omax H; cbn [pass].
+  - cbn. auto.
+  - rewrite <- H. destruct (i1 gid) as [gi|]; [|exact I]. destruct (gi_comps gi) as [c|]; [|exact I].
+    rewrite <- (child_limits_ext i1 i2 H). destruct (child_limits i1 c) as [| |ls]; [exact I| |].
+    + specialize (IH i1 i2 omax H).
+      destruct (pass m i1 rest omax) as [[[a1 k1] o1]| | | |], (pass m i2 rest omax) as [[[a2 k2] o2]| | | |]; cbn in IH |- *; try tauto.
+      destruct IH as (E1 & E2 & E3). cbn in *. subst. auto.
+    + destruct (fold_left (fold_step m) ls (Some lim_zero)) as [limit|]; [|exact I].
+      apply IH. intros g. unfold upd. destruct (g =? gid); [reflexivity|apply H].
+Qed.
+
+Lemma loop_ext : forall m fuel pending i1 i2 omax, (forall g, i1 g = i2 g) ->
+  loop m fuel i1 pending omax = loop m fuel i2 pending omax.
+Proof.
+  intros m. induction fuel as [|f IH]; intros pending i1 i2 omax H; destruct pending as [|p ps]; cbn [loop]; try reflexivity.
+  pose proof (pass_ext m (p :: ps) i1 i2 omax H) as HP.
+  destruct (pass m i1 (p :: ps) omax) as [[[a1 k1] o1]| | | |], (pass m i2 (p :: ps) omax) as [[[a2 k2] o2]| | | |]; cbn in HP; try tauto.
+  destruct HP as (E1 & E2 & E3). cbn [fst snd] in *. subst.
+  rewrite (IH k2 a1 a2 o2 E1). reflexivity.
+Qed.
+
+Lemma composite_ids_spec : forall gl id g,
+  In g (composite_ids id gl) <-> (id <= g /\ exists c bb, nth_error gl (N.to_nat (g - id)) = Some (GComposite c bb)).
+Proof.
+  induction gl as [|x t IH]; intros id g; cbn [composite_ids].
+  - split; [intros []|]. intros (_ & c & bb & E). destruct (N.to_nat (g - id)); discriminate.
+  - assert (Hrest : In g (composite_ids (N.succ id) t) <->
+                    (id < g /\ exists c bb, nth_error (x :: t) (N.to_nat (g - id)) = Some (GComposite c bb))).
+    { rewrite IH. split.
+      - intros (Hle & c & bb & E). split; [lia|]. exists c, bb.
+        replace (N.to_nat (g - id)) with (S (N.to_nat (g - N.succ id))) by lia. exact E.
+      - intros (Hlt & c & bb & E). split; [lia|]. exists c, bb.
+        replace (N.to_nat (g - id)) with (S (N.to_nat (g - N.succ id))) in E by lia. exact E. }
+    destruct (is_composite x) eqn:Ex.
+    + cbn [In]. rewrite Hrest. split.
+      * intros [<-|(Hlt & Hex)]; [|split; [lia|exact Hex]].
+        split; [lia|]. rewrite N.sub_diag. cbn. destruct x; try discriminate. eauto.
+      * intros (Hle & Hex). destruct (N.eq_dec id g) as [->|Hne]; [now left|right]. split; [lia|exact Hex].
+    + rewrite Hrest. split.
+      * intros (Hlt & Hex). split; [lia|exact Hex].
+      * intros (Hle & c & bb & E). destruct (N.eq_dec id g) as [->|Hne].
+        -- rewrite N.sub_diag in E. cbn in E. inversion E; subst. discriminate.
+        -- split; [lia|]. eauto.
+Qed.
+
+Lemma composite_ids_is_comp : forall gl g, In g (composite_ids 0 gl) <-> is_comp gl g.
+Proof.
+  intros gl g. rewrite composite_ids_spec. rewrite N.sub_0_r. unfold is_comp, glyph_at.
+  split; [intros (_ & H); exact H|intros H; split; [lia|exact H]].
+Qed.
+
+(** ** the running maxima and the head box *)
+Definition pts_list (gl : list glyph) : list N :=
+  flat_map (fun g => match g with GSimple cs _ => [u16 (sumN cs)] | _ => [] end) gl.
+Definition ctr_list (gl : list glyph) : list N :=
+  flat_map (fun g => match g with GSimple cs _ => [u16 (lenN cs)] | _ => [] end) gl.
+Definition elems_list (gl : list glyph) : list N :=
+  flat_map (fun g => match g with GComposite c _ => [u16 (lenN c)] | _ => [] end) gl.
+Definition boxes (gl : list glyph) : list bbox :=
+  flat_map (fun g => match glyph_bbox g with Some b => [b] | None => [] end) gl.
+Definition box_acc (o : option bbox) (b : bbox) : option bbox :=
+  Some (match o with Some a => bbox_union a b | None => b end).
+
+Lemma mx_fold_summary : forall gl s id,
+  let s' := mx_fold s id gl in
+  mx_pts s' = fold_left N.max (pts_list gl) (mx_pts s)
+  /\ mx_ctr s' = fold_left N.max (ctr_list gl) (mx_ctr s)
+  /\ mx_elems s' = fold_left N.max (elems_list gl) (mx_elems s)
+  /\ mx_bbox s' = fold_left box_acc (boxes gl) (mx_bbox s).
+Proof.
+  induction gl as [|g t IH]; intros s id; cbn [mx_fold]; cbv zeta.
+  - cbn. auto.
+  - specialize (IH (mx_update s id g) (N.succ id)). cbv zeta in IH. destruct IH as (I1 & I2 & I3 & I4).
+    rewrite I1, I2, I3, I4. unfold pts_list, ctr_list, elems_list, boxes. cbn [flat_map].
+    destruct g as [|cs bb|c bb]; cbn [mx_update glyph_bbox mx_pts mx_ctr mx_elems mx_bbox app fold_left box_acc]; auto.
+Qed.
+
+Lemma fold_maxN_spec : forall vs a0,
+  let m := fold_left N.max vs a0 in
+  a0 <= m /\ (forall v, In v vs -> v <= m) /\ (m = a0 \/ In m vs).
+Proof.
+  induction vs as [|v vs IH]; intros a0; cbn [fold_left]; cbv zeta.
+  - cbn. repeat split; try lia; try tauto.
+  - specialize (IH (N.max a0 v)). cbv zeta in IH. destruct IH as (H1 & H2 & H3). repeat split.
+    + lia.
+    + intros w [<-|Hw]; [lia|auto].
+    + destruct H3 as [H3|H3]; [|right; now right].
+      destruct (N.max_spec a0 v) as [[_ E]|[_ E]]; rewrite E in *; [right; left; now symmetry|now left].
+Qed.
+
+Definition is_maxN_over (vals : list N) (m : N) : Prop :=
+  match vals with [] => m = 0 | _ => In m vals /\ forall v, In v vals -> v <= m end.
+
+Lemma fold_maxN_is_max : forall vs, is_maxN_over vs (fold_left N.max vs 0).
+Proof.
+  intros vs. unfold is_maxN_over. destruct vs as [|v vs'] eqn:E; [reflexivity|]. rewrite <- E.
+  destruct (fold_maxN_spec vs 0) as (H1 & H2 & H3). cbv zeta in *. split; [|exact H2].
+  destruct H3 as [H3|H3]; [|exact H3].
+  assert (Hv : In v vs) by (rewrite E; now left). pose proof (H2 v Hv). rewrite H3 in *.
+  assert (v = 0) by lia. subst v. exact Hv.
+Qed.
+
+Open Scope Z_scope.
+Definition bx0 (b : bbox) : Z := fst (fst (fst b)).
+Definition by0 (b : bbox) : Z := snd (fst (fst b)).
+Definition bx1 (b : bbox) : Z := snd (fst b).
+Definition by1 (b : bbox) : Z := snd b.
+Definition inside (b r : bbox) : Prop := bx0 r <= bx0 b /\ by0 r <= by0 b /\ bx1 b <= bx1 r /\ by1 b <= by1 r.
+
+Lemma box_fold_spec : forall bs o r, fold_left box_acc bs o = Some r ->
+  (forall b, In b bs -> inside b r) /\ (forall a, o = Some a -> inside a r)
+  /\ (exists b, (o = Some b \/ In b bs) /\ bx0 b = bx0 r)
+  /\ (exists b, (o = Some b \/ In b bs) /\ by0 b = by0 r)
+  /\ (exists b, (o = Some b \/ In b bs) /\ bx1 b = bx1 r)
+  /\ (exists b, (o = Some b \/ In b bs) /\ by1 b = by1 r).
+Proof.
+  induction bs as [|v bs IH]; intros o r H; cbn [fold_left] in H.
+  - subst o. split; [intros b []|]. split; [intros a E; inversion E; unfold inside; lia|].
+    repeat split; exists r; auto.
+  - apply IH in H. destruct H as (H1 & H2 & (b0 & B0 & E0) & (b1 & B1 & E1) & (b2 & B2 & E2) & (b3 & B3 & E3)).
+    specialize (H2 _ eq_refl).
+    assert (Hv : inside v r /\ forall a, o = Some a -> inside a r).
+    { destruct o as [a|]; cbn [box_acc] in H2.
+      - destruct a as [[[ax0 ay0] ax1] ay1], v as [[[vx0 vy0] vx1] vy1], r as [[[rx0 ry0] rx1] ry1].
+        unfold inside, bx0, by0, bx1, by1, bbox_union in *. cbn [fst snd] in *.
+        split; [lia|]. intros a' E; inversion E; subst. cbn [fst snd]. lia.
+      - split; [exact H2|intros a E; discriminate]. }
+    destruct Hv as (Hv & Ha).
+    split; [intros b [<-|Hb]; auto|]. split; [exact Ha|].
+    (* attained: an extreme of the union is an extreme of one of the two *)
+    assert (Hatt : forall (p : bbox -> Z) (pick : Z -> Z -> Z),
+              (forall x y, pick x y = x \/ pick x y = y) ->
+              (forall a, p (bbox_union a v) = pick (p a) (p v)) ->
+              forall b, (box_acc o v = Some b \/ In b bs) -> forall z, p b = z ->
+              exists b', (o = Some b' \/ In b' (v :: bs)) /\ p b' = z).
+    { intros p pick Hpick Hp b [Hb|Hb] z Hz.
+      - destruct o as [a|]; cbn [box_acc] in Hb; inversion Hb; subst b.
+        + rewrite Hp in Hz. destruct (Hpick (p a) (p v)) as [E|E]; rewrite E in Hz;
+            [exists a; auto|exists v; split; [right; now left|exact Hz]].
+        + exists v. split; [right; now left|exact Hz].
+      - exists b. split; [right; now right|exact Hz]. }
+    repeat split.
+    + refine (Hatt bx0 Z.min _ _ b0 B0 _ E0); [intros x y; lia|].
+      intros [[[ax0 ay0] ax1] ay1]; destruct v as [[[vx0 vy0] vx1] vy1]; reflexivity.
+    + refine (Hatt by0 Z.min _ _ b1 B1 _ E1); [intros x y; lia|].
+      intros [[[ax0 ay0] ax1] ay1]; destruct v as [[[vx0 vy0] vx1] vy1]; reflexivity.
+    + refine (Hatt bx1 Z.max _ _ b2 B2 _ E2); [intros x y; lia|].
+      intros [[[ax0 ay0] ax1] ay1]; destruct v as [[[vx0 vy0] vx1] vy1]; reflexivity.
+    + refine (Hatt by1 Z.max _ _ b3 B3 _ E3); [intros x y; lia|].
+      intros [[[ax0 ay0] ax1] ay1]; destruct v as [[[vx0 vy0] vx1] vy1]; reflexivity.
+Qed.
+
+Definition is_union_of (bs : list bbox) (hb : option bbox) : Prop :=
+  match bs with
+  | [] => hb = None
+  | _ => exists r, hb = Some r /\ (forall b, In b bs -> inside b r)
+         /\ (exists b, In b bs /\ bx0 b = bx0 r) /\ (exists b, In b bs /\ by0 b = by0 r)
+         /\ (exists b, In b bs /\ bx1 b = bx1 r) /\ (exists b, In b bs /\ by1 b = by1 r)
+  end.
+
+Lemma box_fold_some : forall bs o, (o <> None \/ bs <> []) -> exists r, fold_left box_acc bs o = Some r.
+Proof.
+  induction bs as [|b bs IH]; intros o H; cbn [fold_left].
+  - destruct o; [eauto|]. destruct H; congruence.
+  - apply IH. left. discriminate.
+Qed.
+
+Lemma head_bbox_is_union : forall gl : list glyph,
+  is_union_of (boxes gl) (mx_bbox (mx_fold mx_init 0%N gl)).
+Proof.
+  intros gl. destruct (mx_fold_summary gl mx_init 0%N) as (_ & _ & _ & H). cbv zeta in H. rewrite H.
+  cbn [mx_init mx_bbox]. unfold is_union_of. destruct (boxes gl) as [|b bs] eqn:E; [reflexivity|]. rewrite <- E.
+  destruct (box_fold_some (boxes gl) None) as [r Hr]; [right; rewrite E; discriminate|].
+  exists r. split; [exact Hr|].
+  destruct (box_fold_spec _ _ _ Hr) as (H1 & _ & (b0 & B0 & E0) & (b1 & B1 & E1) & (b2 & B2 & E2) & (b3 & B3 & E3)).
+  split; [exact H1|].
+  repeat split; [exists b0|exists b1|exists b2|exists b3]; (split; [|assumption]);
+    match goal with [ H : None = Some _ \/ _ |- _ ] => destruct H as [H|H]; [discriminate|exact H] end.
+Qed.
+
+(* ========================================================================================== *)
+(** * 3. OS/2 *)
+Open Scope Z_scope.
+
+Lemma filter_map_fst : forall (P : list (Z * Z)),
+  filter (fun a => negb (a =? 0)) (map fst P) = map fst (filter (fun m => negb (fst m =? 0)) P).
+Proof.
+  induction P as [|[a s] P IH]; cbn [map filter fst]; [reflexivity|].
+  destruct (negb (a =? 0)); cbn [map fst]; now rewrite IH.
+Qed.
+
+Lemma sum_app : forall a b, fold_right Z.add 0 (a ++ b) = fold_right Z.add 0 a + fold_right Z.add 0 b.
+Proof. induction a as [|x a IH]; intros b; cbn [app fold_right]; [lia|]. rewrite IH. lia. Qed.
+
+Lemma const_tail_nonzero : forall (T : list (Z * Z)) a, Forall (fun p => fst p = a) T -> a <> 0 ->
+  filter (fun x => negb (x =? 0)) (map fst T) = map fst T
+  /\ fold_right Z.add 0 (map fst T) = Z.of_nat (length T) * a.
+Proof.
+  induction T as [|[x s] T IH]; intros a HF Ha; [cbn; split; [reflexivity|lia]|].
+  pose proof (Forall_inv HF) as Hx. cbn [fst] in Hx. subst x.
+  destruct (IH a (Forall_inv_tail HF) Ha) as (I1 & I2).
+  cbn [map filter fst fold_right length]. destruct (Z.eqb_spec a 0); [congruence|]. cbn [negb].
+  rewrite I1, I2. split; [reflexivity|lia].
+Qed.
+
+Lemma const_tail_zero : forall (T : list (Z * Z)), Forall (fun p => fst p = 0) T ->
+  filter (fun x => negb (x =? 0)) (map fst T) = [].
+Proof.
+  induction T as [|[x s] T IH]; intros HF; [reflexivity|].
+  pose proof (Forall_inv HF) as Hx. cbn [fst] in Hx. subst x. cbn. apply IH. exact (Forall_inv_tail HF).
+Qed.
+
+Lemma xavg_parts_of_expand : forall (P T : list (Z * Z)),
+  (T = [] \/ exists a s0 P', rev P = (a, s0) :: P' /\ Forall (fun p => fst p = a) T /\ 0 <= a) ->
+  xavg_parts P (Z.of_nat (length P + length T)) = xavg_parts_spec (map fst (P ++ T)).
+Proof.
+  intros P T H. unfold xavg_parts, xavg_parts_spec.
+  rewrite map_app, filter_app, app_length, sum_app, filter_map_fst, map_length.
+  set (cnt := Z.of_nat (length (filter (fun m : Z * Z => negb (fst m =? 0)) P))).
+  set (tot := fold_right Z.add 0 (map fst (filter (fun m : Z * Z => negb (fst m =? 0)) P))).
+  destruct H as [->|(a & s0 & P' & HP & HF & Ha)].
+  - cbn [length map filter fold_right]. rewrite Nat.add_0_r.
+    destruct (match rev P with [] => 0 | (a, _) :: _ => a end >? 0); f_equal; lia.
+  - rewrite HP. destruct (Z.gtb_spec a 0) as [Hpos|Hnpos].
+    + destruct (const_tail_nonzero T a HF) as (E1 & E2); [lia|]. rewrite E1, E2, map_length. f_equal; lia.
+    + assert (a = 0) by lia. subst a. rewrite (const_tail_zero T HF). cbn [length fold_right]. f_equal; lia.
+Qed.
+
+Lemma xavg_counts_all_glyphs : forall gs : list minput,
+  (forall g, In g gs -> 0 <= adv_of g) ->
+  xavg_parts (m_long (mb_run gs)) (Z.of_nat (length gs)) = xavg_parts_spec (map adv_of gs).
+Proof.
+  intros gs Hpos. unfold mb_run, mb_build. cbn [m_long]. rewrite mb_run_long.
+  set (L := map pair_of gs). set (k := (length L - num_lsb_only L)%nat).
+  assert (Hadv : map adv_of gs = map fst L) by (unfold L; rewrite map_map; reflexivity).
+  assert (Hlen : length gs = (length (firstn k L) + length (skipn k L))%nat).
+  { rewrite <- app_length, firstn_skipn. unfold L. now rewrite map_length. }
+  rewrite Hadv, Hlen.
+  replace (map fst L) with (map fst (firstn k L ++ skipn k L)) by now rewrite firstn_skipn.
+  apply xavg_parts_of_expand.
+  destruct (skipn k L) as [|t T] eqn:ET; [now left|right]. rewrite <- ET.
+  pose proof (hmtx_reconstructs_list L) as HE. cbv zeta in HE. fold k in HE.
+  assert (Hne : map snd (skipn k L) <> []) by (rewrite ET; discriminate).
+  destruct (expand_some_tail _ _ _ Hne HE) as (a & s0 & P' & HP & HL).
+  exists a, s0, P'. split; [exact HP|].
+  assert (HT : skipn k L = map (fun s => (a, s)) (map snd (skipn k L))).
+  { rewrite <- (firstn_skipn k L) in HL at 1. apply app_inv_head in HL. exact HL. }
+  split.
+  - rewrite HT. apply Forall_forall. intros x Hx. apply in_map_iff in Hx. destruct Hx as (s & <- & _). reflexivity.
+  - (* a is the advance of a glyph *)
+    assert (Hin : In (a, s0) L).
+    { apply (in_firstn' k). apply in_rev. rewrite HP. now left. }
+    unfold L in Hin. apply in_map_iff in Hin. destruct Hin as (g & Eg & Hg). specialize (Hpos g Hg).
+    unfold pair_of in Eg. inversion Eg. unfold adv_of in Hpos. lia.
+Qed.
+
+Lemma xavg_exact_is_rounded_mean : forall count total, 0 < count -> 0 <= total ->
+  let r := xavg_exact count total in
+  2 * count * r <= 2 * total + count < 2 * count * (r + 1).
+Proof.
+  intros count total Hc Ht r. unfold r, xavg_exact. destruct (Z.eqb_spec count 0); [lia|].
+  pose proof (Z.div_mod (2 * total + count) (2 * count)). 
+  pose proof (Z.mod_pos_bound (2 * total + count) (2 * count)). lia.
+Qed.
+
+(* first / last character index *)
+Open Scope N_scope.
+Lemma min_max_fold : forall cps mn mx,
+  let r := fold_left (fun '(mn, mx) cp => (N.min cp mn, N.max cp mx)) cps (mn, mx) in
+  (fst r <= mn /\ (forall c, In c cps -> fst r <= c) /\ (fst r = mn \/ In (fst r) cps))
+  /\ (mx <= snd r /\ (forall c, In c cps -> c <= snd r) /\ (snd r = mx \/ In (snd r) cps)).
+Proof.
+  induction cps as [|c cps IH]; intros mn mx; cbn [fold_left]; cbv zeta.
+  - cbn. repeat split; try lia; try tauto.
+  - specialize (IH (N.min c mn) (N.max c mx)). cbv zeta in IH.
+    destruct IH as ((A1 & A2 & A3) & (B1 & B2 & B3)).
+    set (r := fold_left (fun '(mn, mx) cp => (N.min cp mn, N.max cp mx)) cps (N.min c mn, N.max c mx)) in *.
+    repeat split.
+    + lia.
+    + intros x [<-|Hx]; [lia|auto].
+    + destruct A3 as [A3|A3]; [|right; now right].
+      destruct (N.min_spec c mn) as [[_ E]|[_ E]]; rewrite E in A3; [right; left; now symmetry|now left].
+    + lia.
+    + intros x [<-|Hx]; [lia|auto].
+    + destruct B3 as [B3|B3]; [|right; now right].
+      destruct (N.max_spec c mx) as [[_ E]|[_ E]]; rewrite E in B3; [now left|right; left; now symmetry].
+Qed.
+
+(* usFirstCharIndex is the least code point capped at 0xFFFF (0xFFFF for an empty cmap);
+   usLastCharIndex the greatest, capped (0 for an empty cmap). *)
+Lemma first_last_char_index : forall cps,
+  let '(first, last) := min_max_char cps in
+  (forall c, In c cps -> first <= c /\ N.min c 0xFFFF <= last)
+  /\ (first = 0xFFFF \/ In first cps)
+  /\ (last = 0 \/ exists c, In c cps /\ last = N.min c 0xFFFF)
+  /\ first <= 0xFFFF /\ last <= 0xFFFF.
+Proof.
+  intros cps. unfold min_max_char.
+  pose proof (min_max_fold cps 0xFFFF 0) as H. cbv zeta in H.
+  destruct (fold_left (fun '(mn, mx) cp => (N.min cp mn, N.max cp mx)) cps (0xFFFF, 0)) as [mn mx].
+  cbn [fst snd] in H. destruct H as ((A1 & A2 & A3) & (B1 & B2 & B3)).
+  repeat split.
+  - specialize (A2 c H). lia.
+  - specialize (B2 c H). lia.
+  - destruct A3 as [->|A3]; [now left|]. right. replace (N.min mn 65535) with mn by lia. exact A3.
+  - destruct B3 as [->|B3]; [now left|]. right. exists mx. split; [exact B3|reflexivity].
+  - lia.
+  - lia.
+Qed.
+
+(** ** Unicode ranges: the binary search finds the range, if there is one *)
+Definition rlo (r : N * N * N) : N := fst (fst r).
+Definition rhi (r : N * N * N) : N := snd (fst r).
+Definition contains (r : N * N * N) (cp : N) : Prop := rlo r <= cp /\ cp <= rhi r.
+
+Fixpoint sorted_ranges (prev : option N) (tbl : list (N * N * N)) : bool :=
+  match tbl with
+  | [] => true
+  | r :: t => (rlo r <=? rhi r) && (match prev with None => true | Some h => h <? rlo r end)
+              && sorted_ranges (Some (rhi r)) t
+  end.
+
+Lemma sorted_ranges_after : forall t h, sorted_ranges (Some h) t = true ->
+  forall r, In r t -> h < rlo r /\ rlo r <= rhi r.
+Proof.
+  induction t as [|x t IH]; intros h H r Hin; [destruct Hin|].
+  cbn [sorted_ranges] in H. apply andb_true_iff in H. destruct H as [H H3].
+  apply andb_true_iff in H. destruct H as [H1 H2].
+  destruct Hin as [<-|Hin]; [lia|]. specialize (IH _ H3 r Hin). lia.
+Qed.
+
+Lemma sorted_ranges_idx : forall tbl prev, sorted_ranges prev tbl = true ->
+  forall i j x y, (i < j)%nat -> nth_error tbl i = Some x -> nth_error tbl j = Some y -> rhi x < rlo y.
+Proof.
+  induction tbl as [|r t IH]; intros prev H i j x y Hij Hi Hj; [destruct i; discriminate|].
+  cbn [sorted_ranges] in H. apply andb_true_iff in H. destruct H as [H H3].
+  destruct j as [|j]; [lia|]. cbn [nth_error] in Hj. destruct i as [|i].
+  - cbn in Hi. inversion Hi; subst. apply nth_error_In in Hj.
+    destruct (sorted_ranges_after _ _ H3 y Hj). lia.
+  - cbn [nth_error] in Hi. apply (IH (Some (rhi r)) H3 i j x y); [lia|exact Hi|exact Hj].
+Qed.
+
+Lemma sorted_ranges_wf : forall tbl prev, sorted_ranges prev tbl = true -> forall r, In r tbl -> rlo r <= rhi r.
+Proof.
+  induction tbl as [|x t IH]; intros prev H r Hin; [destruct Hin|].
+  cbn [sorted_ranges] in H. apply andb_true_iff in H. destruct H as [H H3].
+  apply andb_true_iff in H. destruct H as [H1 H2].
+  destruct Hin as [<-|Hin]; [lia|eauto].
+Qed.
+
+Lemma bsearch_sound : forall tbl cp fuel lo hi i, bsearch fuel tbl lo hi cp = Some i ->
+  exists r, nth_error tbl i = Some r /\ contains r cp.
+Proof.
+  intros tbl cp. induction fuel as [|f IH]; intros lo hi i H; cbn [bsearch] in H; [discriminate|].
+  destruct (hi <=? lo)%nat; [discriminate|].
+  destruct (nth_error tbl (lo + (hi - lo) / 2)) as [[[a b] bit]|] eqn:E; [|discriminate].
+  destruct (N.ltb_spec cp a); [eauto|]. destruct (N.ltb_spec b cp); [eauto|].
+  inversion H; subst. exists (a, b, bit). split; [exact E|]. unfold contains, rlo, rhi. cbn. lia.
+Qed.
+
+Lemma bsearch_complete : forall tbl cp, sorted_ranges None tbl = true ->
+  forall fuel lo hi, (hi <= length tbl)%nat -> (hi - lo < fuel)%nat ->
+  bsearch fuel tbl lo hi cp = None ->
+  forall i r, (lo <= i < hi)%nat -> nth_error tbl i = Some r -> ~ contains r cp.
+Proof.
+  intros tbl cp Hs. induction fuel as [|f IH]; intros lo hi Hhi Hf H i r Hi Hr; [lia|].
+  cbn [bsearch] in H. destruct (Nat.leb_spec hi lo); [lia|].
+  set (mid := (lo + (hi - lo) / 2)%nat) in *.
+  assert (Hmid : (lo <= mid < hi)%nat) by (unfold mid; split; [lia|]; pose proof (Nat.div_lt_upper_bound (hi - lo) 2 (hi - lo)); lia).
+  destruct (nth_error tbl mid) as [[[a b] bit]|] eqn:E.
+  2:{ apply nth_error_None in E. lia. }
+  unfold contains. destruct (N.ltb_spec cp a) as [Hlt|Hge].
+  - destruct (Nat.lt_ge_cases i mid) as [Him|Him].
+    + eapply (IH lo mid); eauto; lia.
+    + destruct (Nat.eq_dec i mid) as [->|Hne].
+      * rewrite E in Hr. inversion Hr; subst. unfold rlo. cbn. lia.
+      * assert (rhi (a, b, bit) < rlo r) by (eapply (sorted_ranges_idx tbl None Hs mid i); eauto; lia).
+        pose proof (sorted_ranges_wf tbl None Hs (a, b, bit) (nth_error_In _ _ E)).
+        unfold rhi, rlo in *. cbn [fst snd] in *. lia.
+  - destruct (N.ltb_spec b cp) as [Hlt|Hge2]; [|discriminate].
+    destruct (Nat.lt_ge_cases mid i) as [Him|Him].
+    + eapply (IH (S mid) hi); eauto; lia.
+    + destruct (Nat.eq_dec i mid) as [->|Hne].
+      * rewrite E in Hr. inversion Hr; subst. unfold rhi. cbn. lia.
+      * assert (rhi r < rlo (a, b, bit)) by (eapply (sorted_ranges_idx tbl None Hs i mid); eauto; lia).
+        pose proof (sorted_ranges_wf tbl None Hs r (nth_error_In _ _ Hr)).
+        unfold rhi, rlo in *. cbn [fst snd] in *. lia.
+Qed.
+
+Lemma unicode_ranges_sorted : sorted_ranges None unicode_ranges = true.
+Proof. vm_compute. reflexivity. Qed.
+
+Lemma range_bit_correct : forall tbl cp, sorted_ranges None tbl = true ->
+  match range_bit tbl cp with
+  | Some bit => exists r, In r tbl /\ contains r cp /\ snd r = bit
+  | None => forall r, In r tbl -> ~ contains r cp
+  end.
+Proof.
+  intros tbl cp Hs. unfold range_bit.
+  destruct (bsearch (S (length tbl)) tbl 0 (length tbl) cp) as [i|] eqn:E.
+  - destruct (bsearch_sound _ _ _ _ _ _ E) as (r & Hr & Hc). rewrite Hr. destruct r as [[a b] bit].
+    exists (a, b, bit). split; [eapply nth_error_In; eauto|]. auto.
+  - intros r Hin. apply In_nth_error in Hin. destruct Hin as [i Hi].
+    eapply (bsearch_complete tbl cp Hs (S (length tbl)) 0 (length tbl)); eauto; try lia.
+    split; [lia|]. apply nth_error_Some. congruence.
+Qed.
+
+Lemma ranges_disjoint : forall tbl, sorted_ranges None tbl = true ->
+  forall r r' cp, In r tbl -> In r' tbl -> contains r cp -> contains r' cp -> r = r'.
+Proof.
+  intros tbl Hs r r' cp Hr Hr' Hc Hc'.
+  apply In_nth_error in Hr. destruct Hr as [i Hi]. apply In_nth_error in Hr'. destruct Hr' as [j Hj].
+  unfold contains in *.
+  destruct (Nat.lt_trichotomy i j) as [H|[H|H]].
+  - pose proof (sorted_ranges_idx tbl None Hs i j r r' H Hi Hj). lia.
+  - subst. congruence.
+  - pose proof (sorted_ranges_idx tbl None Hs j i r' r H Hj Hi). lia.
+Qed.
+
+(** ** packing bits into 32-bit words *)
+Lemma pack_word_bits : forall bits i k w,
+  N.testbit (fold_left (fun w b => if b / 32 =? i then N.lor w (N.shiftl 1 (b - 32 * i)) else w) bits w) k
+  = N.testbit w k || existsb (fun b => (b / 32 =? i) && (b - 32 * i =? k)) bits.
+Proof.
+  induction bits as [|b bits IH]; intros i k w; cbn [fold_left existsb].
+  - now rewrite orb_false_r.
+  - rewrite IH. destruct (b / 32 =? i) eqn:E; cbn [andb].
+    + rewrite N.lor_spec, N.shiftl_1_l, N.pow2_bits_eqb. now rewrite orb_assoc.
+    + reflexivity.
+Qed.
+
+Lemma pack_word_spec : forall bits b, b < 128 ->
+  N.testbit (pack_word bits (b / 32)) (b mod 32) = true <-> In b bits.
+Proof.
+  intros bits b Hb. unfold pack_word. rewrite pack_word_bits, N.bits_0. cbn [orb].
+  rewrite existsb_exists. split.
+  - intros (x & Hx & Hc). apply andb_true_iff in Hc. destruct Hc as [C1 C2].
+    apply N.eqb_eq in C1. apply N.eqb_eq in C2. replace b with x; [exact Hx|]. lia.
+  - intros Hin. exists b. split; [exact Hin|]. apply andb_true_iff. split; apply N.eqb_eq; lia.
+Qed.
+
+Lemma unicode_bits_of_spec : forall cp b,
+  In b (unicode_bits_of cp) <->
+  (exists r, In r unicode_ranges /\ contains r cp /\ snd r = b) \/ (b = 57 /\ 0x10000 <= cp <= 0x10FFFF).
+Proof.
+  intros cp b. unfold unicode_bits_of. rewrite in_app_iff.
+  pose proof (range_bit_correct unicode_ranges cp unicode_ranges_sorted) as HR.
+  assert (H57 : In b (if (65536 <=? cp) && (cp <=? 1114111) then [57] else []) <-> (b = 57 /\ 65536 <= cp <= 1114111)).
+  { destruct (N.leb_spec 65536 cp), (N.leb_spec cp 1114111); cbn [andb In]; split;
+      try (intros []; fail); try (intros [? ?]; lia).
+    intros [<-|[]]. lia. }
+  rewrite H57. clear H57.
+  destruct (range_bit unicode_ranges cp) as [bit|].
+  - destruct HR as (r & Hin & Hc & Hb). split.
+    + intros [[<-|[]]|H]; [left; eauto|right; exact H].
+    + intros [(r' & Hin' & Hc' & Hb')|H]; [|right; exact H]. left. left.
+      rewrite (ranges_disjoint _ unicode_ranges_sorted r r' cp Hin Hin' Hc Hc') in Hb. congruence.
+  - split.
+    + intros [[]|H]; right; exact H.
+    + intros [(r' & Hin' & Hc' & _)|H]; [exfalso; eapply HR; eauto|right; exact H].
+Qed.
+
+Lemma all_unicode_bits_small : forall r, In r unicode_ranges -> snd r < 128.
+Proof.
+  assert (H : forallb (fun r => snd r <? 128) unicode_ranges = true) by (vm_compute; reflexivity).
+  intros r Hin. rewrite forallb_forall in H. specialize (H r Hin). lia.
+Qed.
+
+(* Bit b of ulUnicodeRange1..4 is set exactly when some cmap code point lies in a range the table
+   assigns to b — or b = 57 and some code point is beyond the BMP. *)
+Lemma unicode_range_bits_correct : forall cps b, b < 128 ->
+  let '(w0, w1, w2, w3) := unicode_range_words cps in
+  let word := match b / 32 with 0 => w0 | 1 => w1 | 2 => w2 | _ => w3 end in
+  N.testbit word (b mod 32) = true <->
+  exists cp, In cp cps /\
+    ((exists r, In r unicode_ranges /\ contains r cp /\ snd r = b) \/ (b = 57 /\ 0x10000 <= cp <= 0x10FFFF)).
+Proof.
+  intros cps b Hb. unfold unicode_range_words.
+  set (bits := flat_map unicode_bits_of cps).
+  assert (Hw : (match b / 32 with 0 => pack_word bits 0 | 1 => pack_word bits 1 | 2 => pack_word bits 2 | _ => pack_word bits 3 end)
+               = pack_word bits (b / 32)).
+  { assert (b / 32 < 4) by lia. destruct (b / 32) as [|[[|[]|]|[|[]|]|]] eqn:E; try reflexivity; lia. }
+  rewrite Hw, pack_word_spec by exact Hb. unfold bits. rewrite in_flat_map.
+  split; intros (cp & Hin & H); exists cp; (split; [exact Hin|]); apply unicode_bits_of_spec; exact H.
+Qed.
+
+(** ** code pages: only the set of code points matters (the HashSet iteration order cannot) *)
+Lemma mem_iff : forall c cps, mem c cps = true <-> In c cps.
+Proof.
+  intros c cps. unfold mem. rewrite existsb_exists. split.
+  - intros (x & Hx & E). apply N.eqb_eq in E. now subst.
+  - intros H. exists c. split; [exact H|apply N.eqb_refl].
+Qed.
+
+Lemma mem_ext : forall cps cps', (forall c, In c cps <-> In c cps') -> forall c, mem c cps = mem c cps'.
+Proof.
+  intros cps cps' H c. destruct (mem c cps) eqn:E1, (mem c cps') eqn:E2; try reflexivity.
+  - apply mem_iff, H, mem_iff in E1. congruence.
+  - apply mem_iff, H, mem_iff in E2. congruence.
+Qed.
+
+Lemma codepage_bits_set_only : forall cps cps', (forall c, In c cps <-> In c cps') ->
+  codepage_bits cps = codepage_bits cps'.
+Proof.
+  intros cps cps' H. pose proof (mem_ext cps cps' H) as Hm.
+  assert (Ha : has_ascii cps = has_ascii cps').
+  { unfold has_ascii. induction (nrange 32 94) as [|x l IH]; cbn [forallb]; [reflexivity|]. now rewrite Hm, IH. }
+  unfold codepage_bits, codepage_bits_raw. rewrite Ha. rewrite !Hm. reflexivity.
+Qed.
+
+Lemma codepage_bits_nonempty : forall cps, codepage_bits cps <> [].
+Proof. intros cps. unfold codepage_bits. destruct (codepage_bits_raw cps); discriminate. Qed.
+
+(** ** max context *)
+Lemma list_max_spec : forall l, (forall x, In x l -> x <= list_max l) /\ (list_max l = 0 \/ In (list_max l) l).
+Proof.
+  induction l as [|a l [IH1 IH2]]; cbn [list_max fold_right]; [split; [intros x []|now left]|].
+  fold (list_max l). split.
+  - intros x [<-|Hx]; [lia|]. specialize (IH1 x Hx). lia.
+  - destruct (N.max_spec a (list_max l)) as [[_ E]|[_ E]]; rewrite E.
+    + destruct IH2 as [->|IH2]; [now left|right; now right].
+    + right. now left.
+Qed.
+
+Lemma max_context_is_max : forall lookups,
+  (forall l st, In l lookups -> In st l -> sub_context st <= max_context lookups)
+  /\ (max_context lookups = 0 \/ exists l st, In l lookups /\ In st l /\ sub_context st = max_context lookups).
+Proof.
+  intros lookups. unfold max_context.
+  destruct (list_max_spec (map (fun l => list_max (map sub_context l)) lookups)) as [H1 H2]. split.
+  - intros l st Hl Hst.
+    assert (Hin : In (list_max (map sub_context l)) (map (fun l => list_max (map sub_context l)) lookups)) by (apply in_map_iff; eauto).
+    specialize (H1 _ Hin). destruct (list_max_spec (map sub_context l)) as [G1 _].
+    specialize (G1 (sub_context st) (in_map _ _ _ Hst)). lia.
+  - destruct H2 as [H2|H2]; [now left|]. apply in_map_iff in H2. destruct H2 as (l & El & Hl).
+    destruct (list_max_spec (map sub_context l)) as [_ [G2|G2]].
+    + left. lia.
+    + apply in_map_iff in G2. destruct G2 as (st & Est & Hst). right. exists l, st. repeat split; auto. lia.
+Qed.
+
+(* what a subtable contributes, rule by rule *)
+Lemma sub_context_rules : forall st,
+  match st with
+  | StFixed k => sub_context st = k
+  | StLigature l | StContext l => (forall n, In n l -> n <= sub_context st)
+  | StChain l => forall i la, In (i, la) l -> i + la <= sub_context st
+  | StReverse la => sub_context st = 1 + la
+  end.
+Proof.
+  intros [k|l|l|l|la]; cbn [sub_context]; try reflexivity.
+  - apply (proj1 (list_max_spec l)).
+  - apply (proj1 (list_max_spec l)).
+  - intros i la Hin. apply (proj1 (list_max_spec _)). apply in_map_iff. exists (i, la). auto.
+Qed.
+
+(** ** loca *)
+Lemma offsets_le_last : forall sizes s o, In o (offsets_of s sizes) -> o <= last (offsets_of s sizes) 0.
+Proof.
+  induction sizes as [|x t IH]; intros s o Hin; cbn [offsets_of] in *.
+  - destruct Hin as [<-|[]]. cbn. lia.
+  - assert (Hne : offsets_of (s + x) t <> []) by (destruct t; discriminate).
+    assert (Hl : last (s :: offsets_of (s + x) t) 0 = last (offsets_of (s + x) t) 0).
+    { destruct (offsets_of (s + x) t); [congruence|reflexivity]. }
+    rewrite Hl. destruct Hin as [<-|Hin]; [|auto].
+    assert (In (s + x) (offsets_of (s + x) t)) by (destruct t; cbn; auto).
+    specialize (IH _ _ H). lia.
+Qed.
+
+(* short format is only chosen when every offset survives the halving to u16 *)
+Lemma loca_short_roundtrips : forall sizes,
+  let offs := offsets_of 0 sizes in
+  loca_is_short offs = true -> Forall (fun o => short_roundtrip o = o) offs.
+Proof.
+  intros sizes offs H. unfold loca_is_short in H. apply andb_true_iff in H. destruct H as [H1 H2].
+  apply Forall_forall. intros o Hin. rewrite forallb_forall in H2. specialize (H2 o Hin).
+  pose proof (offsets_le_last sizes 0 o Hin) as Hle. fold offs in Hle.
+  unfold short_roundtrip. assert (o / 2 < 65536) by lia. rewrite N.mod_small by assumption. lia.
+Qed.
+
+(* and long format only when some offset would not *)
+Lemma loca_long_needed : forall offs, loca_is_short offs = false ->
+  exists o, (In o offs \/ o = last offs 0) /\ short_roundtrip o <> o.
+Proof.
+  intros offs H. unfold loca_is_short in H. apply andb_false_iff in H. destruct H as [H|H].
+  - exists (last offs 0). split; [now right|]. unfold short_roundtrip.
+    assert (131072 <= last offs 0) by lia. pose proof (N.mod_upper_bound (last offs 0 / 2) 65536). lia.
+  - assert (Hex : exists o, In o offs /\ (o mod 2 =? 0) = false).
+    { induction offs as [|x t IH]; [discriminate|]. cbn [forallb] in H. apply andb_false_iff in H.
+      destruct H as [H|H]; [exists x; split; [now left|exact H]|].
+      destruct (IH H) as (o & Ho & E). exists o. split; [now right|exact E]. }
+    destruct Hex as (o & Ho & E). exists o. split; [now left|]. unfold short_roundtrip. lia.
+Qed.
+
+(* ========================================================================================== *)
+(** * 4. Composite boxes *)
+Require Import Lqa.
+Open Scope Q_scope.
+
+(* m is the least (greatest) element of S up to ==, None for an empty S *)
+Definition E_min (S : list Q) (m : option Q) : Prop :=
+  match m with
+  | None => S = []
+  | Some x => (forall v, In v S -> x <= v) /\ exists v, In v S /\ x == v
+  end.
+Definition E_max (S : list Q) (m : option Q) : Prop :=
+  match m with
+  | None => S = []
+  | Some x => (forall v, In v S -> v <= x) /\ exists v, In v S /\ x == v
+  end.
+
+Definition omin (a b : option Q) : option Q :=
+  match a, b with Some x, Some y => Some (Qmin x y) | None, y => y | x, None => x end.
+Definition omax (a b : option Q) : option Q :=
+  match a, b with Some x, Some y => Some (Qmax x y) | None, y => y | x, None => x end.
+
+Lemma E_min_app : forall S1 S2 m1 m2, E_min S1 m1 -> E_min S2 m2 -> E_min (S1 ++ S2) (omin m1 m2).
+Proof.
+  intros S1 S2 [x|] [y|] H1 H2; cbn [E_min omin] in *.
+  - destruct H1 as (A1 & v1 & I1 & E1), H2 as (A2 & v2 & I2 & E2).
+    pose proof (Q.le_min_l x y). pose proof (Q.le_min_r x y). split.
+    + intros v Hv. apply in_app_or in Hv. destruct Hv as [Hv|Hv]; [specialize (A1 v Hv)|specialize (A2 v Hv)]; lra.
+    + destruct (Q.min_spec x y) as [[_ E]|[_ E]]; [exists v1|exists v2]; (split; [apply in_or_app; auto|]); lra.
+  - subst S2. rewrite app_nil_r. exact H1.
+  - subst S1. exact H2.
+  - subst. reflexivity.
+Qed.
+
+Lemma E_max_app : forall S1 S2 m1 m2, E_max S1 m1 -> E_max S2 m2 -> E_max (S1 ++ S2) (omax m1 m2).
+Proof.
+  intros S1 S2 [x|] [y|] H1 H2; cbn [E_max omax] in *.
+  - destruct H1 as (A1 & v1 & I1 & E1), H2 as (A2 & v2 & I2 & E2).
+    pose proof (Q.le_max_l x y). pose proof (Q.le_max_r x y). split.
+    + intros v Hv. apply in_app_or in Hv. destruct Hv as [Hv|Hv]; [specialize (A1 v Hv)|specialize (A2 v Hv)]; lra.
+    + destruct (Q.max_spec x y) as [[_ E]|[_ E]]; [exists v2|exists v1]; (split; [apply in_or_app; auto|]); lra.
+  - subst S2. rewrite app_nil_r. exact H1.
+  - subst S1. exact H2.
+  - subst. reflexivity.
+Qed.
+
+Lemma E_min_single : forall v, E_min [v] (Some v).
+Proof. intros v. cbn. split; [intros x [<-|[]]; lra|exists v; split; [now left|reflexivity]]. Qed.
+Lemma E_max_single : forall v, E_max [v] (Some v).
+Proof. intros v. cbn. split; [intros x [<-|[]]; lra|exists v; split; [now left|reflexivity]]. Qed.
+
+Definition rx0 (r : rect) : Q := fst (fst (fst r)).
+Definition ry0 (r : rect) : Q := snd (fst (fst r)).
+Definition rx1 (r : rect) : Q := snd (fst r).
+Definition ry1 (r : rect) : Q := snd r.
+
+(* r is the bounding rectangle of the points S *)
+Definition sides_ok (r : option rect) (S : list (Q * Q)) : Prop :=
+  E_min (map fst S) (option_map rx0 r) /\ E_min (map snd S) (option_map ry0 r)
+  /\ E_max (map fst S) (option_map rx1 r) /\ E_max (map snd S) (option_map ry1 r).
+
+Lemma sides_union_opt : forall a b S1 S2, sides_ok a S1 -> sides_ok b S2 ->
+  sides_ok (rect_union_opt a b) (S1 ++ S2).
+Proof.
+  intros a b S1 S2 (A1 & A2 & A3 & A4) (B1 & B2 & B3 & B4). unfold sides_ok. rewrite !map_app.
+  pose proof (E_min_app _ _ _ _ A1 B1) as C1. pose proof (E_min_app _ _ _ _ A2 B2) as C2.
+  pose proof (E_max_app _ _ _ _ A3 B3) as C3. pose proof (E_max_app _ _ _ _ A4 B4) as C4.
+  destruct a as [[[[ax0 ay0] ax1] ay1]|], b as [[[[bx0 by0] bx1] by1]|]; cbn in *; auto.
+Qed.
+
+Lemma sides_point : forall p, sides_ok (Some (fst p, snd p, fst p, snd p)) [p].
+Proof.
+  intros p. unfold sides_ok. cbn. repeat split; try (intros x [<-|[]]; lra);
+    first [exists (fst p); split; [now left|reflexivity] | exists (snd p); split; [now left|reflexivity]].
+Qed.
+
+Lemma union_pt_as_opt : forall r p, rect_union_pt r p = rect_union_opt r (Some (fst p, snd p, fst p, snd p)).
+Proof. intros [[[[x0 y0] x1] y1]|] p; reflexivity. Qed.
+
+Lemma sides_fold_pts : forall qs acc S, sides_ok acc S ->
+  sides_ok (fold_left rect_union_pt qs acc) (S ++ qs).
+Proof.
+  induction qs as [|q qs IH]; intros acc S H; cbn [fold_left].
+  - now rewrite app_nil_r.
+  - replace (S ++ q :: qs) with ((S ++ [q]) ++ qs) by (rewrite <- app_assoc; reflexivity).
+    apply IH. rewrite union_pt_as_opt. apply sides_union_opt; [exact H|apply sides_point].
+Qed.
+
+Lemma fold_left_map' : forall {A B C} (f : A -> B -> A) (g : C -> B) l a,
+  fold_left (fun r p => f r (g p)) l a = fold_left f (map g l) a.
+Proof. intros A B C f g. induction l as [|x l IH]; intros a; cbn; [reflexivity|apply IH]. Qed.
+
+Lemma go_sides : forall gl recb recr,
+  (forall a c r pts, recb a c = Some r -> recr a c = Some pts -> sides_ok r pts) ->
+  forall a cs acc S r pts, sides_ok acc S ->
+  bbox_go recb gl a cs acc = Some r -> resolve_go recr gl a cs = Some pts -> sides_ok r (S ++ pts).
+Proof.
+  intros gl recb recr Hrec a. induction cs as [|c t IH]; intros acc S r pts Hacc Hb Hr;
+    cbn [bbox_go resolve_go] in Hb, Hr.
+  - inversion Hb; inversion Hr; subst. now rewrite app_nil_r.
+  - destruct (nth_error gl (N.to_nat (comp_gid c))) as [[|bb cts ps|bb comps']|]; try discriminate.
+    + eapply IH; eauto.
+    + destruct (resolve_go recr gl a t) as [rt|] eqn:Et; [|discriminate]. inversion Hr; subst.
+      rewrite app_assoc. eapply IH; [|exact Hb|reflexivity].
+      rewrite (fold_left_map' rect_union_pt). apply sides_fold_pts. exact Hacc.
+    + destruct (recb (aff_mul a (aff_of c)) comps') as [child|] eqn:Eb; [|discriminate].
+      destruct (recr (aff_mul a (aff_of c)) comps') as [x|] eqn:Ex; [|discriminate].
+      destruct (resolve_go recr gl a t) as [rt|] eqn:Et; [|discriminate]. inversion Hr; subst.
+      rewrite app_assoc. eapply IH; [|exact Hb|reflexivity].
+      apply sides_union_opt; [exact Hacc|]. eapply Hrec; eauto.
+Qed.
+
+Lemma sides_none_nil : sides_ok None [].
+Proof. unfold sides_ok. cbn. auto. Qed.
+
+Lemma bbox_comp_sides : forall gl fuel a comps r pts,
+  bbox_comp fuel gl a comps None = Some r -> resolve fuel gl a comps = Some pts -> sides_ok r pts.
+Proof.
+  intros gl. induction fuel as [|f IH]; intros a comps r pts Hb Hr; [discriminate|].
+  cbn [bbox_comp resolve] in Hb, Hr.
+  change pts with ([] ++ pts).
+  refine (go_sides gl (fun a' c' => bbox_comp f gl a' c' None) (fun a' c' => resolve f gl a' c') _
+                   a comps None [] r pts sides_none_nil Hb Hr).
+  intros a' c' r' pts' H1 H2. eapply IH; eauto.
+Qed.
+
+(* rounding to nearest moves a bound by at most one half *)
+Lemma ot_round_bounds : forall q, inject_Z (ot_round q) <= q + (1 # 2) /\ q + (1 # 2) < inject_Z (ot_round q) + 1.
+Proof.
+  intros q. unfold ot_round. split; [apply Qfloor_le|].
+  pose proof (Qlt_floor (q + (1 # 2))) as H. rewrite inject_Z_plus in H. exact H.
+Qed.
+
+Lemma half_between : forall f z : Z, inject_Z f <= inject_Z z + (1 # 2) -> inject_Z z + (1 # 2) < inject_Z f + 1 -> f = z.
+Proof.
+  intros f z A B.
+  assert (C : (f <= z)%Z).
+  { destruct (Z_le_gt_dec f z) as [|G]; [assumption|]. exfalso.
+    assert (H0 : (z + 1 <= f)%Z) by lia. rewrite Zle_Qle in H0. rewrite inject_Z_plus in H0.
+    change (inject_Z 1) with 1 in H0. lra. }
+  assert (D : (z <= f)%Z).
+  { destruct (Z_le_gt_dec z f) as [|G]; [assumption|]. exfalso.
+    assert (H0 : (f + 1 <= z)%Z) by lia. rewrite Zle_Qle in H0. rewrite inject_Z_plus in H0.
+    change (inject_Z 1) with 1 in H0. lra. }
+  lia.
+Qed.
+
+Lemma ot_round_integer : forall q z, q == inject_Z z -> ot_round q = z.
+Proof.
+  intros q z H. destruct (ot_round_bounds q) as [A B]. apply half_between; lra.
+Qed.
+
+Definition integral (p : Q * Q) : Prop := exists x y : Z, fst p == inject_Z x /\ snd p == inject_Z y.
+
+(* The box written for a composite, against its resolved outline. *)
+Lemma composite_bbox_covers : forall fuel gl comps bb pts,
+  composite_bbox fuel gl comps = Some bb -> resolve fuel gl aff_id comps = Some pts ->
+  let '(xmin, ymin, xmax, ymax) := bb in
+  match pts with
+  | [] => bb = (0, 0, 0, 0)%Z
+  | _ =>
+    (* every point lies in the box widened by half a unit *)
+    (forall p, In p pts ->
+        inject_Z xmin - (1 # 2) <= fst p /\ fst p < inject_Z xmax + (1 # 2)
+        /\ inject_Z ymin - (1 # 2) <= snd p /\ snd p < inject_Z ymax + (1 # 2))
+    (* every side is the rounded coordinate of some point *)
+    /\ (exists p, In p pts /\ xmin = ot_round (fst p)) /\ (exists p, In p pts /\ ymin = ot_round (snd p))
+    /\ (exists p, In p pts /\ xmax = ot_round (fst p)) /\ (exists p, In p pts /\ ymax = ot_round (snd p))
+    (* and if the resolved outline is integral the box contains it *)
+    /\ ((forall p, In p pts -> integral p) ->
+        forall p, In p pts -> inject_Z xmin <= fst p <= inject_Z xmax /\ inject_Z ymin <= snd p <= inject_Z ymax)
+  end.
+Proof.
+  intros fuel gl comps bb pts Hb Hr. unfold composite_bbox in Hb.
+  destruct (bbox_comp fuel gl aff_id comps None) as [r|] eqn:Eb; [|discriminate].
+  pose proof (bbox_comp_sides gl fuel aff_id comps r pts Eb Hr) as (S1 & S2 & S3 & S4).
+  destruct r as [[[[x0 y0] x1] y1]|]; cbn [option_map rx0 ry0 rx1 ry1 fst snd] in *.
+  2:{ inversion Hb; subst. cbn [E_min] in S1. destruct pts; [reflexivity|discriminate]. }
+  inversion Hb; subst. clear Hb.
+  destruct pts as [|p0 pts']; [destruct S1 as (_ & v & [] & _)|]. set (pts := p0 :: pts') in *.
+  destruct S1 as (A1 & v1 & I1 & E1), S2 as (A2 & v2 & I2 & E2), S3 as (A3 & v3 & I3 & E3), S4 as (A4 & v4 & I4 & E4).
+  pose proof (ot_round_bounds x0) as [B1 B1']. pose proof (ot_round_bounds y0) as [B2 B2'].
+  pose proof (ot_round_bounds x1) as [B3 B3']. pose proof (ot_round_bounds y1) as [B4 B4'].
+  split.
+  { intros p Hp. pose proof (A1 _ (in_map fst _ _ Hp)). pose proof (A2 _ (in_map snd _ _ Hp)).
+    pose proof (A3 _ (in_map fst _ _ Hp)). pose proof (A4 _ (in_map snd _ _ Hp)). repeat split; lra. }
+  assert (Hround : forall a b, a == b -> ot_round a = ot_round b).
+  { intros a b E. unfold ot_round. apply Qfloor_comp. rewrite E. reflexivity. }
+  apply in_map_iff in I1. destruct I1 as (p1 & <- & P1). apply in_map_iff in I2. destruct I2 as (p2 & <- & P2).
+  apply in_map_iff in I3. destruct I3 as (p3 & <- & P3). apply in_map_iff in I4. destruct I4 as (p4 & <- & P4).
+  split; [exists p1; split; [exact P1|apply Hround; exact E1]|].
+  split; [exists p2; split; [exact P2|apply Hround; exact E2]|].
+  split; [exists p3; split; [exact P3|apply Hround; exact E3]|].
+  split; [exists p4; split; [exact P4|apply Hround; exact E4]|].
+  intros Hint p Hp.
+  destruct (Hint p1 P1) as (z1 & _ & Z1 & _). destruct (Hint p2 P2) as (_ & z2 & _ & Z2).
+  destruct (Hint p3 P3) as (z3 & _ & Z3 & _). destruct (Hint p4 P4) as (_ & z4 & _ & Z4).
+  rewrite (ot_round_integer x0 z1) by (rewrite E1; exact Z1).
+  rewrite (ot_round_integer y0 z2) by (rewrite E2; exact Z2).
+  rewrite (ot_round_integer x1 z3) by (rewrite E3; exact Z3).
+  rewrite (ot_round_integer y1 z4) by (rewrite E4; exact Z4).
+  pose proof (A1 _ (in_map fst _ _ Hp)). pose proof (A2 _ (in_map snd _ _ Hp)).
+  pose proof (A3 _ (in_map fst _ _ Hp)). pose proof (A4 _ (in_map snd _ _ Hp)).
+  rewrite <- Z1, <- Z2, <- Z3, <- Z4, <- E1, <- E2, <- E3, <- E4. repeat split; assumption.
+Qed.
+
+(* ========================================================================================== *)
+(** * 5. The refutations (faithful arithmetic) and the whole-font checker *)
+Open Scope N_scope.
+
+(* DESIGN 6.2: glyph 1 = 100 components of glyph 0, which has 700 points *)
+Definition overflow_witness : list glyph :=
+  [GSimple (repeat 4 175) (0, 0, 10, 10)%Z; GComposite (repeat 0 100) (0, 0, 10, 10)%Z].
+
+Lemma composite_limits_u16_refuted :
+  exists gl pending,
+    (forall g, In g pending <-> is_comp gl g)
+    /\ (exists o, limits_run Ideal gl pending = LOk o /\ lo_cpts o = 70000)
+    /\ (exists o, limits_run Release gl pending = LOk o /\ lo_cpts o = 4464)
+    /\ limits_run Debug gl pending = LOverflow.
+Proof.
+  exists overflow_witness, [1]. split.
+  - intros g. rewrite <- composite_ids_is_comp. vm_compute. tauto.
+  - split; [eexists; split; vm_compute; reflexivity|].
+    split; [eexists; split; vm_compute; reflexivity|]. vm_compute. reflexivity.
+Qed.
+
+Open Scope Q_scope.
+(* a component scaled by one half: the point (21, 0) lands on x = 10.5, the box says 11 *)
+Definition bbox_witness : list dbody :=
+  [DSimple (21, 0, 41, 10)%Z [4%N] [(21, 0); (41, 0); (41, 10); (21, 10)]%Z].
+Definition bbox_witness_comps : list dcomp := [(0%N, (8192, 0, 0, 8192), (0, 0))%Z].
+
+Lemma composite_bbox_strict_refuted :
+  exists gl comps bb pts p,
+    composite_bbox 2 gl comps = Some bb /\ resolve 2 gl aff_id comps = Some pts /\ In p pts
+    /\ ~ (inject_Z (fst (fst (fst bb))) <= fst p).
+Proof.
+  exists bbox_witness, bbox_witness_comps. eexists. eexists. eexists.
+  split; [vm_compute; reflexivity|]. split; [vm_compute; reflexivity|].
+  split; [left; reflexivity|]. vm_compute. intros H. apply H. reflexivity.
+Qed.
+
+Open Scope Z_scope.
+(* 515 glyphs, 257 of advance 30001 and 258 of 30000: the mean is 30000.499.. *)
+Lemma xavg_f32_refuted :
+  exists count total, 0 < count /\ xavg_f32 count total <> xavg_exact count total.
+Proof. exists 515, 15450257. split; [lia|]. vm_compute. discriminate. Qed.
+
+(* boolean equalities *)
+Lemma bbox_eqb_eq : forall a b, bbox_eqb a b = true -> a = b.
+Proof.
+  intros [[[a0 a1] a2] a3] [[[b0 b1] b2] b3] H. unfold bbox_eqb in H.
+  repeat (apply andb_true_iff in H; destruct H as [H ?]). f_equal; [f_equal; [f_equal|]|]; lia.
+Qed.
+
+Lemma andb_split : forall a b, a && b = true -> a = true /\ b = true.
+Proof. intros. now apply andb_true_iff. Qed.
+
+Lemma simple_fits_b_sound : forall gl, simple_fits_b gl = true -> simple_fits gl.
+Proof.
+  intros gl H g cs bb E. unfold simple_fits_b in H. rewrite forallb_forall in H.
+  unfold glyph_at in E. apply nth_error_In in E. specialize (H _ E). cbn in H.
+  apply andb_true_iff in H. destruct H. lia.
+Qed.
+
+Lemma limits_run_info0 : forall m gl pending,
+  update_composite_limits m (mx_info (mx_fold mx_init 0%N gl)) pending = update_composite_limits m (info0 gl) pending.
+Proof. intros. unfold update_composite_limits. apply loop_ext. apply mx_fold_info0. Qed.
+
+(* what a font that passes the checker satisfies *)
+Definition font_spec (f : dfont) : Prop :=
+  let gs := map h_input (f_glyphs f) in
+  let outl := filter has_outline gs in
+  let gl := font_glyphs f in
+  let '(amax, minlsb, minrsb, ext) := f_hhea f in
+  let '(mp, mc, cp, cc, el, d) := f_maxp f in
+  (* hmtx: every glyph's side bearing is its xMin (0 without outline) *)
+  (forall g, In g (f_glyphs f) -> dg_lsb g = sb_of (h_input g))
+  (* hhea *)
+  /\ is_max_over (map adv_of gs) amax
+  /\ is_min_over (map sb_of outl) minlsb
+  /\ is_min_over (map second_sb outl) minrsb
+  /\ is_max_over (map extent_of outl) ext
+  (* maxp *)
+  /\ is_maxN_over (pts_list gl) mp /\ is_maxN_over (ctr_list gl) mc /\ is_maxN_over (elems_list gl) el
+  /\ limits_spec gl (mkLim cp cc d)
+  (* head *)
+  /\ match boxes gl with [] => f_head_bbox f = (0, 0, 0, 0) | _ => is_union_of (boxes gl) (Some (f_head_bbox f)) end
+  (* OS/2 *)
+  /\ (let '(_, first, last) := f_os2 f in min_max_char (f_cps f) = (first, last))
+  /\ max_context (f_lookups f) = f_maxctx f.
+
+Lemma list_eqb'_pairs : forall a b, list_eqb' pairZ_eqb a b = true -> a = b.
+Proof.
+  induction a as [|[x y] a IH]; intros [|[x' y'] b] H; cbn in H; try discriminate; [reflexivity|].
+  apply andb_true_iff in H. destruct H as [H1 H2]. unfold pairZ_eqb in H1. cbn in H1.
+  apply andb_true_iff in H1. destruct H1. f_equal; [f_equal; lia|auto].
+Qed.
+
+Lemma check_font_sound : forall f, check_font f = true -> font_spec f.
+Proof.
+  intros f H. unfold check_font, check_font_report in H. cbn [forallb] in H.
+  apply andb_split in H. destruct H as [Hh H]. apply andb_split in H. destruct H as [_ H].
+  apply andb_split in H. destruct H as [Hl H]. apply andb_split in H. destruct H as [_ H].
+  apply andb_split in H. destruct H as [_ H]. apply andb_split in H. destruct H as [Ho _].
+  unfold font_spec.
+  destruct (f_hhea f) as [[[amax minlsb] minrsb] ext] eqn:Ehhea.
+  destruct (f_maxp f) as [[[[[mp mc] cp] cc] el] d] eqn:Emaxp.
+  (* horizontal metrics *)
+  unfold check_hmetrics in Hh. rewrite Ehhea in Hh.
+  apply andb_split in Hh. destruct Hh as [Hh Hq]. apply andb_split in Hh. destruct Hh as [Hh _].
+  apply andb_split in Hh. destruct Hh as [Hpos Hexp].
+  set (gs := map h_input (f_glyphs f)) in *.
+  apply bbox_eqb_eq in Hq. inversion Hq; subst amax minlsb minrsb ext. clear Hq.
+  assert (Hnonneg : forall g, In g gs -> 0 <= adv_of g).
+  { intros g Hg. unfold gs in Hg. apply in_map_iff in Hg. destruct Hg as (dg & <- & Hdg).
+    rewrite forallb_forall in Hpos. specialize (Hpos dg Hdg). unfold h_input, adv_of.
+    destruct (body_bbox (dg_body dg)) as [[[[? ?] ?] ?]|]; cbn; lia. }
+  destruct (hhea_extrema_exact gs Hnonneg) as (X1 & X2 & X3 & X4). cbv zeta in X1, X2, X3, X4.
+  split.
+  { (* lsb *)
+    destruct (hmtx_reconstructs gs) as [Hrec _]. cbv zeta in Hrec. rewrite Hrec in Hexp.
+    apply list_eqb'_pairs in Hexp. unfold gs in Hexp. rewrite map_map in Hexp.
+    intros g Hg.
+    assert (Hpw : forall (l : list dglyph), map (fun x => pair_of (h_input x)) l = map (fun g => (dg_adv g, dg_lsb g)) l ->
+                  forall g, In g l -> dg_lsb g = sb_of (h_input g)).
+    { induction l as [|x l IH]; intros E g0 Hin0; [destruct Hin0|].
+      cbn [map] in E. inversion E. destruct Hin0 as [<-|Hin0]; [|auto].
+      unfold sb_of. cbn [snd fst]. congruence. }
+    apply (Hpw _ Hexp g Hg). }
+  split; [exact X1|]. split; [exact X2|]. split; [exact X3|]. split; [exact X4|].
+  (* maxp / head *)
+  unfold check_limits in Hl. rewrite Emaxp in Hl. set (gl := font_glyphs f) in *.
+  destruct (limits_run Ideal gl (composite_ids 0 gl)) as [o| | | |] eqn:Erun; try discriminate.
+  repeat (apply andb_split in Hl; destruct Hl as [Hl ?]).
+  unfold limits_run in Erun. rewrite limits_run_info0 in Erun.
+  destruct (update_composite_limits Ideal (info0 gl) (composite_ids 0 gl)) as [c| | | |] eqn:Eupd; try discriminate.
+  inversion Erun; subst o. clear Erun. cbn [lo_pts lo_ctr lo_elems lo_cpts lo_cctr lo_depth lo_bbox] in *.
+  destruct (mx_fold_summary gl mx_init 0%N) as (M1 & M2 & M3 & M4). cbv zeta in M1, M2, M3, M4.
+  cbn [mx_init mx_pts mx_ctr mx_elems mx_bbox] in M1, M2, M3, M4.
+  assert (mp = fold_left N.max (pts_list gl) 0%N) by lia.
+  assert (mc = fold_left N.max (ctr_list gl) 0%N) by lia.
+  assert (el = fold_left N.max (elems_list gl) 0%N) by lia. subst mp mc el.
+  split; [apply fold_maxN_is_max|]. split; [apply fold_maxN_is_max|]. split; [apply fold_maxN_is_max|].
+  split.
+  { assert (c = mkLim cp cc d) by (destruct c; cbn in *; f_equal; lia). subst c.
+    eapply composite_limits_sound; [apply simple_fits_b_sound; eassumption|now left| |exact Eupd].
+    intros g Hg. apply composite_ids_is_comp. exact Hg. }
+  split.
+  { match goal with [ Hb : bbox_eqb (f_head_bbox f) _ = true |- _ ] => apply bbox_eqb_eq in Hb; rename Hb into Hbb end.
+    pose proof (head_bbox_is_union gl) as HU. unfold is_union_of in *.
+    destruct (boxes gl) as [|b bs] eqn:Eb.
+    - rewrite HU in Hbb. exact Hbb.
+    - destruct HU as (r & Er & HU). rewrite Er in Hbb. rewrite Hbb. exists r. split; [reflexivity|exact HU]. }
+  (* OS/2 *)
+  unfold check_os2 in Ho. destruct (f_os2 f) as [[avg first] last].
+  destruct (xavg_parts _ _) as [count total].
+  apply andb_split in Ho. destruct Ho as [Ho Hmc]. apply andb_split in Ho. destruct Ho as [Ho _].
+  apply andb_split in Ho. destruct Ho as [Ho _]. apply andb_split in Ho. destruct Ho as [_ Hmm].
+  split.
+  - destruct (min_max_char (f_cps f)) as [mn mx]. apply andb_split in Hmm. destruct Hmm. f_equal; lia.
+  - lia.
+Qed.
